@@ -144,7 +144,20 @@ def s_templates(depth2=False):
                 yield case(src, "int", ["int", "int"], "S", "tpl/" + name, globals_=["g@"])
 
 
-def aggregates(types=INT_TYPES):
+def aggregates(types=INT_TYPES, extra=True):
+    """extra: also yield the sources of the extended families at a reduced grammar bound (for consumers that only want sources and call
+    aggregates() without arguments, i.e. C28); C01 / C04 pass extra=False and enumerate the extended families themselves."""
+    if extra:
+        for c in _aggregates(types):
+            yield c
+        for c in extended(maxlen={"struct": 1, "array": 2, "array-unsized": 1, "array-2d": 1, "array-of-struct": 1}):
+            yield dict(c, feat=c["fam"] + "/" + c["feat"])
+        return
+    for c in _aggregates(types):
+        yield c
+
+
+def _aggregates(types=INT_TYPES):
     for t in types:
         yield case("struct S@ { char c; %s v; short s; }; long long f@(%s a, int b){ struct S@ s; s.c=1; s.v=a; s.s=(short)b; return (long long)s.v + s.c + s.s; }" % (t, t),
                    "long long", [t, "int"], "A", "struct-field/" + t)
@@ -216,3 +229,902 @@ def floats():
     yield case("double f@(float a){ return a; }", "double", ["float"], "F", "float->double")
     yield case("float f@(double a){ return (float)a; }", "float", ["double"], "F", "double->float")
     yield case("int f@(double a){ return (int)(a*100.7); }", "int", ["double"], "F", "float->int/truncation")
+
+
+# =====================================================================================================================
+# Extended families (added after a coverage review of C01: parts of C no family above reaches).  The generators above are
+# unchanged.  Every case carries "strict": True -> the oracle compiles it with -pedantic-errors and without -w, and any gcc
+# error *or warning* excludes the case (gcc is the only judge of validity).  Family codes:
+#   GI  initialised objects with static storage (file scope and static locals)      LI  the same for automatic objects
+#   CH  character constants and string literals                                     CL  compound literals
+#   VA  variadic functions defined and called in the same translation unit          XA  calls across the gcc/ppci ABI boundary
+#   SZ  sizeof / __builtin_offsetof / _Alignof                                      ST  statements
+#   SV  structures by value (assignment, parameter, return) by size and layout      PT  pointers and function pointers
+#   DQ  declarations: typedef chains, enums, qualifiers, storage classes, prototypes
+# Bounds are stated at each generator; inside a bound every combination is generated, simplest first.
+# Initialiser values are written '#n#'; they render as the constant n, or as the run-time expression (a+n) / (b+n).
+# =====================================================================================================================
+import re as _re
+
+ULL = "unsigned long long"
+VA_PRE = ("#ifdef __GNUC__\n#define VA_START(a,f) __builtin_va_start(a,f)\n#define VA_END(a) __builtin_va_end(a)\n#else\n"
+          "#define VA_START(a,f) __builtin_va_start(a)\n#define VA_END(a)\n#endif\n")
+RT_VECTORS = [[0, 0], [1, 2], [-7, 100], [2147483647, -2147483647 - 1], [-1, -1]]
+
+
+def xcase(src, ret, params, fam, feat, globals_=(), restore=(), k=5, cap=9, vecs=None, split=None):
+    c = case(src, ret, params, fam, feat, globals_, k, cap, restore)
+    if vecs is not None:
+        c["vectors"] = [list(v) for v in vecs]
+    c["strict"] = True
+    if split:
+        c["split"] = split
+    loc = _locus(fam, feat)
+    if loc != feat:
+        c["locus"] = loc
+    return c
+
+
+def _char_class(c):
+    if not c.startswith("\\"):
+        return "plain"
+    if c[1] == "x":
+        return "hex-high" if int(c[2:], 16) >= 128 else "hex"
+    if c[1] in "01234567":
+        return "octal-high" if int(c[1:], 8) >= 128 else "octal"
+    return "simple-escape"
+
+
+def _va_class(seq):
+    sizes = {"i": 4, "u": 4, "l": 8, "d": 8, "p": 8, "s": 8, "c": 4, "h": 4, "f": 8}
+    if not seq or seq == "none":
+        return "no-arguments"
+    if set(seq) - set(sizes):
+        return seq
+    cls = []
+    if set(seq) & set("ch"):
+        cls.append("char-short-promoted")
+    if "f" in seq:
+        cls.append("float-promoted")
+    ss = {sizes[k] for k in seq}
+    cls.append("all-4-byte" if ss == {4} else "all-8-byte" if ss == {8} else ("4-byte-first-then-8" if sizes[seq[0]] == 4 else "8-byte-first-then-4"))
+    if "d" in seq or "f" in seq:
+        cls.append("with-double")
+    return "+".join(cls) + ("/more-than-6" if len(seq) > 6 else "")
+
+
+def _locus(fam, feat):
+    """The part of a violation key that names the feature: coarse enough that one defect gives few keys."""
+    parts = feat.split("/")
+    if fam == "CH" and parts[0] == "char-constant":
+        return "/".join(parts[:2]) + "/" + _char_class("/".join(parts[2:]))
+    if fam in ("GI", "LI") and len(parts) == 3 and parts[1] in SHAPES:
+        return "/".join(parts[:2]) + "/{" + ",".join(sorted(set(_re.split(r",(?![^{]*\})", parts[2])))) + "}"
+    if fam in ("GI", "LI") and parts[1] in ("member", "member-implicit-zero", "array-implicit-zero"):
+        return "/".join(parts[:3])
+    if fam == "VA" and parts[0] in ("fixed", "promoted", "run", "mixed", "format-driven"):
+        return parts[0] + "/" + _va_class(parts[-1] if parts[0] != "run" else parts[1] * int(parts[2]))
+    if fam == "VA" and parts[0] == "named-prefix":
+        return "/".join(parts[:2]) + "/" + _va_class(parts[2])
+    if fam == "XA" and parts[0] == "variadic":
+        return "/".join(parts[:2]) + "/" + _va_class(parts[2])
+    if fam == "SZ" and parts[0] == "sizeof-expression" and parts[1] == "binary":
+        def cls(t):
+            from vf.oracles.gccrun import BITS, is_unsigned
+            if t not in BITS:
+                return t
+            return ("u" if is_unsigned(t) else "s") + ("<int" if BITS[t] < 32 else ("int" if BITS[t] == 32 else ">int"))
+        return "/".join(parts[:2]) + "/" + cls(parts[2]) + "/" + cls(parts[3])
+    return feat
+
+
+def _render(text, rt):
+    n = [0]
+
+    def sub(m):
+        n[0] += 1
+        if not rt:
+            return m.group(1)
+        return "(%s+%s)" % ("ab"[n[0] & 1], m.group(1))
+    return _re.sub(r"#(-?\d+)#", sub, text)
+
+
+def _acc(expr):
+    return " r = r * 31u + (%s)(long long)(%s);" % (ULL, expr)
+
+
+def _readout(leaves):
+    return "".join(_acc(e) for e in leaves)
+
+
+STORAGES = ["global", "static-local", "local", "local-rt"]
+_FAM_OF = {"global": "GI", "static-local": "GI", "local": "LI", "local-rt": "LI"}
+
+
+def init_case(storage, types, decl, init, leaves, feat, extra_globals="", byte_global=None):
+    """One initialised object `decl = init;` with the given storage; f@ returns a hash over the listed scalar lvalues."""
+    rt = storage == "local-rt"
+    ini = _render(init, rt)
+    obj = "%s = %s;" % (decl, ini)
+    body = " %s r = 0;%s return r; }" % (ULL, _readout(leaves))
+    head = types + extra_globals
+    if storage == "global":
+        src = head + " " + obj + " %s f@(void){" % ULL + body
+        params, vecs = [], None
+    elif storage == "static-local":
+        src = head + " %s f@(void){ static %s" % (ULL, obj) + body
+        params, vecs = [], None
+    elif storage == "local":
+        src = head + " %s f@(void){ %s" % (ULL, obj) + body
+        params, vecs = [], None
+    else:
+        src = head + " %s f@(int a, int b){ %s" % (ULL, obj) + body
+        params, vecs = ["int", "int"], RT_VECTORS
+    gl = [byte_global] if (byte_global and storage == "global") else []
+    return xcase(src, ULL, params, _FAM_OF[storage], storage + "/" + feat, globals_=gl, vecs=vecs)
+
+
+def seqs(menu, maxlen, minlen=1):
+    for n in range(minlen, maxlen + 1):
+        for s in itertools.product(range(len(menu)), repeat=n):
+            yield s
+
+
+# --- the designator / brace grammar over four object shapes --------------------------------------------------------
+SHAPES = {
+    # name: (type definitions, declaration, scalar leaves, item menu [(label, text)], byte-comparable)
+    "struct": ("struct I@ { char c; short d; }; struct D@ { int a; int b[3]; struct I@ in; long e; };", "struct D@ o@",
+               ["o@.a", "o@.b[0]", "o@.b[1]", "o@.b[2]", "o@.in.c", "o@.in.d", "o@.e"],
+               [("pos", "#11#"), (".a", ".a=#12#"), (".b[1]", ".b[1]=#13#"), (".b={}", ".b={#14#,#15#}"), (".in.d", ".in.d=#16#"),
+                (".in={}", ".in={#17#,#18#}"), (".e", ".e=#19#"), (".b[2]", ".b[2]=#20#"), ("{}", "{#21#,#22#}"), (".in.c", ".in.c=#23#")], False),
+    "array": ("", "int o@[4]", ["o@[0]", "o@[1]", "o@[2]", "o@[3]"],
+              [("pos", "#1#"), ("[2]", "[2]=#2#"), ("[0]", "[0]=#3#"), ("[3]", "[3]=#4#"), ("[1]", "[1]=#5#")], True),
+    "array-unsized": ("", "int o@[]", ["(long long)sizeof(o@)", "o@[0]", "o@[sizeof(o@)/sizeof(o@[0])-1]", "o@[(sizeof(o@)/sizeof(o@[0]))/2]"],
+                      [("pos", "#1#"), ("[2]", "[2]=#2#"), ("[0]", "[0]=#3#"), ("[3]", "[3]=#4#"), ("[1]", "[1]=#5#")], True),
+    "array-2d": ("", "int o@[2][3]", ["o@[%d][%d]" % (i, j) for i in range(2) for j in range(3)],
+                 [("pos", "#1#"), ("{,}", "{#2#,#3#}"), ("[1]={}", "[1]={#4#}"), ("[1][2]", "[1][2]=#5#"), ("[0][1]", "[0][1]=#6#"), ("{}", "{#7#}")], True),
+    "array-of-struct": ("struct Q@ { char c; int i; };", "struct Q@ o@[3]", ["o@[%d].%s" % (i, m) for i in range(3) for m in "ci"],
+                        [("pos", "#1#"), ("{,}", "{#2#,#3#}"), ("[1]={}", "[1]={#4#}"), ("[2].i", "[2].i=#5#"), ("[0]={.i}", "[0]={.i=#6#}"), ("{.c}", "{.c=#7#}")], False),
+}
+
+
+def init_grammar(shape, storage, maxlen):
+    """Every initialiser-item sequence of length 1..maxlen over the shape's menu (gcc discards the invalid ones)."""
+    types, decl, leaves, menu, bytewise = SHAPES[shape]
+    for s in seqs(menu, maxlen):
+        init = "{ " + ", ".join(menu[i][1] for i in s) + " }"
+        feat = shape + "/" + ",".join(menu[i][0] for i in s)
+        yield init_case(storage, types, decl, init, leaves, feat, byte_global="o@" if bytewise else None)
+
+
+# --- one member of every type -------------------------------------------------------------------------------------------
+def init_member_types(storage):
+    rt = storage == "local-rt"
+    for t in INT_TYPES + ["float", "double"]:
+        if rt:
+            vals = ["(%s)a" % t, "(%s)b" % t]
+        elif is_float(t):
+            vals = ["1.5", "-0.25", "3"]
+        else:
+            vals = [str(v) if v >= 0 else "(-%d-1)" % (-v - 1) for v in V(t, 5)[2:5]]
+            if t.startswith("unsigned l"):
+                vals = [v + "u" for v in vals]
+        for vi, v in enumerate(vals):
+            leaf = "o@.v" if not is_float(t) else "o@.v*4"
+            c = init_case(storage, "struct M@ { char c; %s v; short s; };" % t, "struct M@ o@", "{ #1#, %s, #3# }" % v, ["o@.c", leaf, "o@.s"],
+                          "member/%s/%d" % (t, vi))
+            yield c
+        # partial initialiser: the member of type t is implicitly zero; array of t with a partial list
+        yield init_case(storage, "struct M@ { char c; %s v; short s; };" % t, "struct M@ o@", "{ #1# }", ["o@.c", "o@.v", "o@.s"], "member-implicit-zero/" + t)
+        yield init_case(storage, "", "%s o@[3]" % t, "{ #1# }", ["o@[0]", "o@[1]", "o@[2]"], "array-implicit-zero/" + t)
+    H = [
+        ("char-pointer/string", "struct M@ { char c; char *p; short s; };", "", "{ #1#, \"xy\", #3# }", ["o@.c", "o@.p[0]", "o@.p[1]", "o@.p[2]", "o@.s"]),
+        ("char-pointer/null", "struct M@ { char c; char *p; short s; };", "", "{ #1#, 0, #3# }", ["o@.c", "o@.p == 0", "o@.s"]),
+        ("int-pointer/address", "struct M@ { char c; int *p; short s; };", " int gv@ = 77;", "{ #1#, &gv@, #3# }", ["o@.c", "*o@.p", "o@.s"]),
+        ("int-pointer/element-address", "struct M@ { char c; int *p; short s; };", " int ga@[4] = {5, 6, 7, 8};", "{ #1#, &ga@[2], #3# }", ["o@.c", "*o@.p", "o@.p[-1]", "o@.s"]),
+        ("int-pointer/array-plus", "struct M@ { char c; int *p; short s; };", " int ga@[4] = {5, 6, 7, 8};", "{ #1#, ga@ + 1, #3# }", ["o@.c", "*o@.p", "o@.s"]),
+        ("int-pointer/member-address", "struct M@ { char c; int *p; short s; };", " struct G@ { int x; int y; } gs@ = {3, 4};", "{ #1#, &gs@.y, #3# }", ["o@.c", "*o@.p", "o@.s"]),
+        ("enum", "enum E@ { A@, B@ = 5, C@ }; struct M@ { char c; enum E@ e; short s; };", "", "{ #1#, C@, #3# }", ["o@.c", "o@.e", "o@.s"]),
+        ("function-pointer", "struct M@ { char c; int (*fn)(int); short s; };", " static int inc@(int x){ return x + 1; }", "{ #1#, inc@, #3# }", ["o@.c", "o@.fn(4)", "o@.s"]),
+        ("bit-fields", "struct M@ { unsigned a : 3; int b : 5; unsigned c : 9; char d; };", "", "{ #5#, -3, #300#, #7# }", ["o@.a", "o@.b", "o@.c", "o@.d"]),
+        ("bit-fields/unnamed", "struct M@ { unsigned a : 3; unsigned : 5; unsigned c : 4; char d; };", "", "{ #5#, #9#, #7# }", ["o@.a", "o@.c", "o@.d"]),
+        ("bit-fields/designated", "struct M@ { unsigned a : 3; int b : 5; unsigned c : 9; char d; };", "", "{ .c = #300#, .a = #5# }", ["o@.a", "o@.b", "o@.c", "o@.d"]),
+        ("bit-fields/long", "struct M@ { unsigned long a : 33; long b : 20; int c; };", "", "{ #5#, -3, #7# }", ["o@.a", "o@.b", "o@.c"]),
+        ("nested-3", "struct A@ { char x; short y[2]; }; struct B@ { struct A@ a[2]; int k; }; struct M@ { long z; struct B@ b; };", "",
+         "{ #1#, { { { #2#, { #3#, #4# } }, { #5# } }, #6# } }", ["o@.z", "o@.b.a[0].x", "o@.b.a[0].y[0]", "o@.b.a[0].y[1]", "o@.b.a[1].x", "o@.b.a[1].y[1]", "o@.b.k"]),
+        ("nested-3/designated-path", "struct A@ { char x; short y[2]; }; struct B@ { struct A@ a[2]; int k; }; struct M@ { long z; struct B@ b; };", "",
+         "{ .b.a[1].y[1] = #3#, .b.k = #4#, .z = #5#, .b.a[0].x = #6# }", ["o@.z", "o@.b.a[0].x", "o@.b.a[0].y[0]", "o@.b.a[1].x", "o@.b.a[1].y[1]", "o@.b.k"]),
+        ("nested-3/designated-then-positional", "struct A@ { char x; short y[2]; }; struct B@ { struct A@ a[2]; int k; }; struct M@ { long z; struct B@ b; };", "",
+         "{ .b.a[0].y[1] = #3#, #4#, #5# }", ["o@.z", "o@.b.a[0].y[1]", "o@.b.a[1].x", "o@.b.a[1].y[0]", "o@.b.a[1].y[1]", "o@.b.k"]),
+        ("brace-elision/struct-array-int", "struct M@ { int a[2]; int b; };", "", "{ #1#, #2#, #3# }", ["o@.a[0]", "o@.a[1]", "o@.b"]),
+        ("brace-elision/struct-struct", "struct A@ { char x; int y; }; struct M@ { struct A@ p; struct A@ q; long r; };", "", "{ #1#, #2#, #3#, #4#, #5# }",
+         ["o@.p.x", "o@.p.y", "o@.q.x", "o@.q.y", "o@.r"]),
+        ("brace-elision/partial-inner", "struct A@ { char x; int y; }; struct M@ { struct A@ p; struct A@ q; long r; };", "", "{ { #1# }, #2#, #3#, #4# }",
+         ["o@.p.x", "o@.p.y", "o@.q.x", "o@.q.y", "o@.r"]),
+        ("float-member-from-int", "struct M@ { float f; double d; int i; };", "", "{ #1#, #2#, #3# }", ["o@.f*2", "o@.d*2", "o@.i"]),
+        ("int-member-from-float-constant", "struct M@ { int i; char c; long l; };", "", "{ 2.75, 65.5, -3.5 }", ["o@.i", "o@.c", "o@.l"]),
+        ("constant-expression-values", "enum E@ { K@ = 3 }; struct M@ { int i; long l; unsigned u; };", "",
+         "{ K@ * 2 + (int)sizeof(long), (long)1 << 40, -1 }", ["o@.i", "o@.l", "o@.u"]),
+        ("trailing-comma", "struct M@ { int i; int j; };", "", "{ #1#, #2#, }", ["o@.i", "o@.j"]),
+        ("scalar-in-braces", "struct M@ { int i; int j; };", "", "{ { #1# }, #2# }", ["o@.i", "o@.j"]),
+        ("pointer-array/strings", "struct M@ { char *t[3]; int n; };", "", "{ { \"x\", \"yz\" }, #3# }", ["o@.t[0][0]", "o@.t[1][1]", "o@.t[2] == 0", "o@.n"]),
+        ("packed-chars", "struct M@ { char a; char b; char c; };", "", "{ #1#, #2#, #3# }", ["o@.a", "o@.b", "o@.c"]),
+        ("array-of-array-of-struct", "struct A@ { short h; char c; };", "", None, None),
+    ]
+    for name, types, extra, init, leaves in H:
+        if init is None:
+            yield init_case(storage, types, "struct A@ o@[2][2]", "{ { { #1#, #2# }, { #3# } }, { [1] = { .c = #4# } } }",
+                            ["o@[%d][%d].%s" % (i, j, m) for i in range(2) for j in range(2) for m in "hc"], name)
+            continue
+        yield init_case(storage, types, "struct M@ o@", init, leaves, name, extra_globals=extra)
+
+
+def init_unions(storage):
+    U = "struct W@ { short a; short b; }; union U@ { int i; char c[4]; long l; struct W@ s; double d; };"
+    forms = [
+        ("first-member", "union U@ o@", "{ #5# }", ["o@.i"]),
+        ("designated/int", "union U@ o@", "{ .i = #6# }", ["o@.i"]),
+        ("designated/char-array", "union U@ o@", "{ .c = { #1#, #2#, #3#, #4# } }", ["o@.c[0]", "o@.c[1]", "o@.c[2]", "o@.c[3]"]),
+        ("designated/char-array-string", "union U@ o@", "{ .c = \"abc\" }", ["o@.c[0]", "o@.c[1]", "o@.c[2]", "o@.c[3]"]),
+        ("designated/char-array-element", "union U@ o@", "{ .c[2] = #9# }", ["o@.c[2]"]),
+        ("designated/long", "union U@ o@", "{ .l = #7# }", ["o@.l"]),
+        ("designated/long-wide", "union U@ o@", "{ .l = 0x123456789abcdef }", ["o@.l"]),
+        ("designated/struct", "union U@ o@", "{ .s = { #1#, #2# } }", ["o@.s.a", "o@.s.b"]),
+        ("designated/struct-path", "union U@ o@", "{ .s.b = #3# }", ["o@.s.b"]),
+        ("designated/double", "union U@ o@", "{ .d = 2.5 }", ["o@.d*2"]),
+        ("designated/override-last-wins", "union U@ o@", "{ .i = #1#, .l = #2# }", ["o@.l"]),
+        ("in-struct/first", "struct H@ { char t; union U@ u; int z; } o@", "{ #1#, { #2# }, #3# }", ["o@.t", "o@.u.i", "o@.z"]),
+        ("in-struct/designated", "struct H@ { char t; union U@ u; int z; } o@", "{ #1#, { .l = #2# }, #3# }", ["o@.t", "o@.u.l", "o@.z"]),
+        ("in-struct/path", "struct H@ { char t; union U@ u; int z; } o@", "{ .u.s.b = #2#, .z = #3# }", ["o@.t", "o@.u.s.b", "o@.z"]),
+        ("array-of-unions", "union U@ o@[3]", "{ { #1# }, { .l = #2# }, { .c = { #3#, #4# } } }", ["o@[0].i", "o@[1].l", "o@[2].c[0]", "o@[2].c[1]"]),
+        ("array-of-unions/elided", "union U@ o@[3]", "{ #1#, #2# }", ["o@[0].i", "o@[1].i", "o@[2].i"]),
+        ("small-first-member", "union V@ { char c; long l; } o@", "{ #65# }", ["o@.c"]),
+        ("small-first-member/array", "union V@ { char c; long l; } o@[2]", "{ { #65# }, { .l = #66# } }", ["o@[0].c", "o@[1].l"]),
+        ("anonymous-member", "struct N@ { int tag; union { int i; short h[2]; }; } o@", "{ #1#, { #2# } }", ["o@.tag", "o@.i"]),
+        ("anonymous-member/designated", "struct N@ { int tag; union { int i; short h[2]; }; } o@", "{ .h = { #2#, #3# }, .tag = #1# }", ["o@.tag", "o@.h[0]", "o@.h[1]"]),
+    ]
+    for name, decl, init, leaves in forms:
+        yield init_case(storage, U, decl, init, leaves, "union/" + name)
+
+
+def init_strings(storage):
+    if storage == "local-rt":
+        return
+    forms = [
+        ("fits-with-nul", "char o@[4]", "\"abc\""), ("exact-no-nul", "char o@[3]", "\"abc\""), ("shorter", "char o@[8]", "\"abc\""),
+        ("unsized", "char o@[]", "\"abc\""), ("unsized-empty", "char o@[]", "\"\""), ("one-empty", "char o@[1]", "\"\""),
+        ("braced", "char o@[]", "{ \"abc\" }"), ("braced-sized", "char o@[6]", "{ \"ab\" }"), ("embedded-nul", "char o@[]", "\"a\\0b\""),
+        ("escapes", "char o@[]", "\"a\\n\\t\\\\\\\"\\x41\\101\\7\\'\\?\""), ("adjacent", "char o@[]", "\"ab\" \"cd\""),
+        ("adjacent-hex-boundary", "char o@[]", "\"\\x4\" \"1\""), ("octal-boundary", "char o@[]", "\"\\1012\\08\""),
+        ("unsigned-high", "unsigned char o@[]", "\"\\377\\200\\x80\""), ("signed-high", "signed char o@[]", "\"\\377\\200\\x80\""),
+        ("plain-high", "char o@[3]", "\"\\377\\200\""), ("char-list", "char o@[4]", "{ 'a', 'b', 99 }"), ("char-list-unsized", "char o@[]", "{ 'a', 0, 'c' }"),
+        ("char-designated", "char o@[6]", "{ [4] = 'x', [1] = 'y' }"),
+        ("2d", "char o@[2][4]", "{ \"ab\", \"cde\" }"), ("2d-unsized", "char o@[][3]", "{ \"ab\", \"c\", \"xyz\" }"), ("2d-elided-chars", "char o@[2][2]", "{ 'a', 'b', 'c', 'd' }"),
+        ("2d-designated", "char o@[3][4]", "{ [2] = \"zz\", [0] = \"a\" }"),
+    ]
+    for name, decl, init in forms:
+        yield _string_case(storage, name, decl, init)
+    S = [
+        ("pointer", "const char *o@", "\"hello\"", ["o@[0]", "o@[4]", "o@[5]"]),
+        ("pointer-plus", "const char *o@", "\"hello\" + 2", ["o@[0]", "o@[-1]", "o@[3]"]),
+        ("pointer-element-address", "const char *o@", "&\"hello\"[1]", ["o@[0]", "o@[4]"]),
+        ("pointer-array", "char *o@[]", "{ \"x\", \"yz\", 0 }", ["(long long)sizeof(o@)", "o@[0][0]", "o@[0][1]", "o@[1][1]", "o@[1][2]", "o@[2] == 0"]),
+        ("pointer-array-designated", "const char *o@[4]", "{ [2] = \"two\", [0] = \"zero\" }", ["o@[0][3]", "o@[1] == 0", "o@[2][1]", "o@[3] == 0"]),
+        ("struct-char-array", "struct N@ { char n[4]; int k; } o@", "{ \"ab\", 5 }", ["o@.n[0]", "o@.n[1]", "o@.n[2]", "o@.n[3]", "o@.k"]),
+        ("struct-char-array-exact", "struct N@ { char n[3]; char k; } o@", "{ \"abc\", 5 }", ["o@.n[0]", "o@.n[2]", "o@.k"]),
+        ("struct-char-array-elided", "struct N@ { char n[4]; int k; } o@", "{ 'a', 'b', 'c', 'd', 5 }", ["o@.n[0]", "o@.n[3]", "o@.k"]),
+        ("struct-char-array-designated", "struct N@ { int k; char n[6]; } o@", "{ .n = \"xyz\", .k = 2 }", ["o@.n[0]", "o@.n[2]", "o@.n[3]", "o@.n[5]", "o@.k"]),
+        ("array-of-struct-strings", "struct N@ { char n[3]; short k; } o@[2]", "{ { \"ab\", 1 }, { \"cde\", 2 } }", ["o@[0].n[1]", "o@[0].n[2]", "o@[0].k", "o@[1].n[2]", "o@[1].k"]),
+        ("struct-string-pointer", "struct N@ { const char *p; int k; } o@[2]", "{ { \"ab\", 1 }, { \"cde\" } }", ["o@[0].p[1]", "o@[0].k", "o@[1].p[2]", "o@[1].k"]),
+        ("same-literal-twice", "const char *o@[2]", "{ \"dup\", \"dup\" }", ["o@[0][2]", "o@[1][0]"]),
+    ]
+    for name, decl, init, leaves in S:
+        yield init_case(storage, "", decl, init, leaves, "string/" + name)
+
+
+def _string_case(storage, name, decl, init):
+    var = decl.split("o@")[0]
+    obj = "%s = %s;" % (decl, init)
+    body = (" %s r = 0; unsigned long i; const unsigned char *p = (const unsigned char *)o@; for (i = 0; i < sizeof(o@); i++) r = r * 31u + p[i];"
+            " r = r * 31u + sizeof(o@); r = r * 31u + (%s)(long long)((char *)o@)[0]; return r; }" % (ULL, ULL))
+    if storage == "global":
+        src = obj + " %s f@(void){" % ULL + body
+    elif storage == "static-local":
+        src = "%s f@(void){ static %s" % (ULL, obj) + body
+    else:
+        src = "%s f@(void){ %s" % (ULL, obj) + body
+    return xcase(src, ULL, [], _FAM_OF[storage], storage + "/string/" + name, globals_=["o@"] if storage == "global" else [])
+
+
+def init_family(storage, maxlen=None, shapes=None):
+    """All initialiser cases for one storage class.  maxlen: {shape: item-sequence length bound}."""
+    maxlen = maxlen or {"struct": 2, "array": 3, "array-unsized": 2, "array-2d": 2, "array-of-struct": 2}
+    for c in init_member_types(storage):
+        yield c
+    for c in init_unions(storage):
+        yield c
+    for c in init_strings(storage):
+        yield c
+    for sh in (shapes or list(SHAPES)):
+        for c in init_grammar(sh, storage, maxlen.get(sh, 2)):
+            yield c
+
+
+# --- character constants and string literals in expressions ---------------------------------------------------------------
+CHAR_CONSTS = ["a", "z", "0", " ", "~", "\\n", "\\t", "\\\\", "\\'", "\"", "\\\"", "\\0", "\\a", "\\b", "\\f", "\\r", "\\v", "\\?", "\\x41", "\\x7f", "\\x80", "\\xff",
+               "\\377", "\\200", "\\101", "\\7", "\\07", "\\007", "\\x0a", "\\x00041"]
+STR_LITS = [("plain", "\"abc\""), ("empty", "\"\""), ("adjacent", "\"ab\" \"cd\""), ("adjacent-3", "\"a\" \"\" \"bc\""), ("escapes", "\"\\x41\\n\\0z\""),
+            ("embedded-nul", "\"a\\0b\""), ("high", "\"\\377\\x80\""), ("octal-digits", "\"\\1012\""), ("hex-then-adjacent", "\"\\x4\" \"1\""), ("quote", "\"\\\"'\\\\\"")]
+
+
+def chars_strings():
+    for c in CHAR_CONSTS:
+        lit = "'%s'" % c
+        name = c
+        yield xcase("long long f@(int a){ return %s + (long long)a * 1000; }" % lit, "long long", ["int"], "CH", "char-constant/value/" + name, vecs=[[0], [1]])
+        yield xcase("int g@ = %s; char h@ = %s; unsigned char u@ = %s; long long f@(void){ return g@ * 65536LL + h@ * 256 + u@; }" % (lit, lit, lit), "long long", [], "CH",
+                    "char-constant/static-initialiser/" + name)
+        yield xcase("long long f@(int a){ switch (a) { case %s: return 1; case 'Q': return 2; default: return 3; } }" % lit, "long long", ["int"], "CH",
+                    "char-constant/case-label/" + name, vecs=[[0], [10], [65], [81], [255], [-1], [97], [128], [-128], [127], [7], [39], [34], [92], [63]])
+        yield xcase("int t@[(%s & 15) + 1]; enum E@ { K@ = %s }; long long f@(void){ return (long long)sizeof(t@) * 1000 + K@; }" % (lit, lit), "long long", [], "CH",
+                    "char-constant/constant-context/" + name)
+        yield xcase("long long f@(int a){ char c = %s; unsigned char u = %s; return (c == %s) + 2 * (u == %s) + 4 * (c < 0) + 8 * (int)sizeof(%s) + 100 * (a + c); }" % (lit, lit, lit, lit, lit),
+                    "long long", ["int"], "CH", "char-constant/compare-narrow/" + name, vecs=[[0], [3]])
+    for name, s in STR_LITS:
+        yield xcase("long long f@(int a){ return %s[a]; }" % s, "long long", ["int"], "CH", "string-literal/index/" + name, vecs=[[0], [1], [2], [3], [4]])
+        yield xcase("long long f@(void){ return sizeof %s; }" % s, "long long", [], "CH", "string-literal/sizeof/" + name)
+        yield xcase("long long f@(void){ return sizeof(%s) * 10 + sizeof(%s[0]); }" % (s, s), "long long", [], "CH", "string-literal/sizeof-paren/" + name)
+        yield xcase("int t@[sizeof %s + 1]; enum E@ { K@ = sizeof(%s) }; long long g@ = sizeof %s; long long f@(void){ return (long long)sizeof(t@) * 10000 + K@ * 100 + g@; }" % (s, s, s),
+                    "long long", [], "CH", "string-literal/sizeof-constant-context/" + name)
+        yield xcase("long long f@(void){ const char *p = %s; long long r = 0; unsigned long i; for (i = 0; i < sizeof %s; i++) r = r * 31 + (unsigned char)p[i]; return r; }" % (s, s),
+                    "long long", [], "CH", "string-literal/all-bytes/" + name)
+        yield xcase("static long long len@(const char *s){ long long n = 0; while (*s++) n++; return n; } long long f@(void){ return len@(%s); }" % s, "long long", [], "CH",
+                    "string-literal/argument/" + name)
+        yield xcase("long long f@(void){ return *%s + 2 * *(%s + 1 - 1); }" % (s, s), "long long", [], "CH", "string-literal/deref/" + name)
+    yield xcase("long long f@(int a, int b){ const char *s = a > 0 ? \"yes\" : \"no\"; return s[b & 1] + s[2 - (a <= 0)]; }", "long long", ["int", "int"], "CH", "string-literal/conditional")
+    yield xcase("long long f@(int a){ const char *t[] = { \"zero\", \"one\", \"two\" }; return t[a][0] + t[a][2]; }", "long long", ["int"], "CH", "string-literal/local-table", vecs=[[0], [1], [2]])
+    yield xcase("long long f@(int a){ return \"0123456789abcdef\"[a & 15] + (\"xyz\" + 1)[a & 1] + (&\"pq\"[1])[0]; }", "long long", ["int"], "CH", "string-literal/pointer-forms", vecs=[[0], [9], [15], [-1]])
+    yield xcase("long long f@(int a){ char buf[8]; const char *s = \"copy me\"; int i; for (i = 0; i < 8; i++) buf[i] = s[i]; buf[a & 7] = '#'; return buf[0] + buf[3] * 3 + buf[6] * 5 + buf[7]; }",
+                "long long", ["int"], "CH", "string-literal/copy-loop", vecs=[[0], [3], [6], [7]])
+    yield xcase("long long f@(void){ return sizeof(\"abc\") + sizeof(char[sizeof \"ab\"]) + (long long)sizeof(&\"abc\") * 100 + sizeof(*\"abc\") * 10000; }", "long long", [], "CH", "string-literal/sizeof-forms")
+
+
+# --- compound literals --------------------------------------------------------------------------------------------------------
+def compound_literals():
+    P = "struct P@ { int x; int y; }; "
+    L = [
+        ("struct/initialise", P + "long long f@(int a, int b){ struct P@ p = (struct P@){ a, b }; return p.x * 3LL + p.y; }"),
+        ("struct/assign", P + "long long f@(int a, int b){ struct P@ p; p = (struct P@){ a, b }; p = (struct P@){ p.y, p.x }; return p.x * 3LL + p.y; }"),
+        ("struct/member", P + "long long f@(int a, int b){ return (struct P@){ a, b }.y * 2LL + (struct P@){ .y = a }.x; }"),
+        ("struct/designated", P + "long long f@(int a, int b){ struct P@ p = (struct P@){ .y = a, .x = b }; return p.x * 3LL + p.y; }"),
+        ("struct/partial", P + "long long f@(int a, int b){ struct P@ p = (struct P@){ a }; return p.x * 3LL + p.y + b; }"),
+        ("struct/argument", P + "static long long s@(struct P@ p){ return p.x * 3LL + p.y; } long long f@(int a, int b){ return s@((struct P@){ a, b }); }"),
+        ("struct/pointer-argument", P + "static long long s@(const struct P@ *p){ return p->x * 3LL + p->y; } long long f@(int a, int b){ return s@(&(struct P@){ a, b }); }"),
+        ("struct/return", P + "static struct P@ mk@(int a, int b){ return (struct P@){ b, a }; } long long f@(int a, int b){ struct P@ p = mk@(a, b); return p.x * 3LL + p.y; }"),
+        ("struct/address-modify", P + "long long f@(int a, int b){ struct P@ *p = &(struct P@){ a, b }; p->x += 1; p->y = p->x; return p->x * 3LL + p->y; }"),
+        ("struct/nested", "struct I@ { char c; short d[2]; }; struct O@ { struct I@ in; long e; }; long long f@(int a, int b){ struct O@ o = (struct O@){ { (char)a, { 1, (short)b } }, 7 }; "
+         "return o.in.c + o.in.d[0] * 3 + o.in.d[1] * 5 + o.e * 7; }"),
+        ("struct/file-scope-pointer", P + "struct P@ *gp@ = &(struct P@){ 5, 6 }; long long f@(int a, int b){ gp@->x += a & 1; return gp@->x * 3LL + gp@->y + b; }"),
+        ("struct/file-scope-value", P + "struct P@ gq@ = (struct P@){ 5, 6 }; long long f@(int a, int b){ return gq@.x * 3LL + gq@.y + a + b; }"),
+        ("array/index", "long long f@(int a, int b){ return (int[]){ 1, 2, 3 }[a & 1] + b; }"),
+        ("array/run-time-values", "long long f@(int a, int b){ return (int[]){ a, b, a + 1 }[b & 1] + (long long)(int[3]){ a }[2]; }"),
+        ("array/pointer", "long long f@(int a, int b){ int *p = (int[]){ a, b, 7 }; p[1] += 1; return p[0] + p[1] * 3LL + p[2] * 5; }"),
+        ("array/sizeof", "long long f@(int a, int b){ return sizeof((int[]){ 1, 2, 3 }) + sizeof((char[]){ \"abc\" }) * 100 + a + b; }"),
+        ("array/designated", "long long f@(int a, int b){ int *p = (int[5]){ [3] = a, [1] = b }; return p[0] + p[1] * 3LL + p[3] * 5 + p[4]; }"),
+        ("array/chars", "long long f@(int a, int b){ const char *s = (char[]){ \"hey\" }; return s[a & 3] + b; }"),
+        ("array/file-scope", "int *gp@ = (int[]){ 5, 6, 7 }; long long f@(int a, int b){ return gp@[a & 1] + gp@[2] + b; }"),
+        ("array/file-scope-in-struct", "struct T@ { int n; int *v; } gt@ = { 3, (int[]){ 4, 5, 6 } }; long long f@(int a, int b){ return gt@.v[a & 1] + gt@.v[gt@.n - 1] + b; }"),
+        ("array/as-argument", "static long long sum@(const int *v, int n){ long long s = 0; while (n-- > 0) s += v[n]; return s; } long long f@(int a, int b){ return sum@((int[]){ a, b, 3, 4 }, 4); }"),
+        ("scalar/value", "long long f@(int a, int b){ return (int){ a } + (long){ b } * 2; }"),
+        ("scalar/address", "long long f@(int a, int b){ int *p = &(int){ a }; *p += b & 7; return *p; }"),
+        ("scalar/loop-fresh-each-iteration", "long long f@(int a, int b){ long long s = 0; int i; for (i = 0; i < 3; i++){ int *p = &(int){ a & 7 }; *p += i; s = s * 10 + *p; } return s + b; }"),
+        ("union/designated", "union U@ { int i; char c[4]; }; long long f@(int a, int b){ return (union U@){ .i = a }.i + (union U@){ .c = { 1, 2 } }.c[1] + b; }"),
+    ]
+    for name, src in L:
+        c = xcase(src, "long long", ["int", "int"], "CL", name, k=5, cap=9)
+        if name == "struct/file-scope-pointer":
+            c["vectors"] = [[1, 2]]  # the unnamed static object is modified: one call per process / interpreter instance
+        yield c
+
+
+# --- variadic functions ----------------------------------------------------------------------------------------------------------
+# argument kinds: letter -> (type read by va_arg, expression passed by the caller built from a, b and position i, accumulate expression over x)
+VA_KINDS = {
+    "i": ("int", "(a + %d)", "x"),
+    "u": ("unsigned", "((unsigned)b + %du)", "x"),
+    "l": ("long", "((long)a * 1000003L + %d)", "x"),
+    "d": ("double", "(b * 0.5 + %d)", "(long long)(x * 2)"),
+    "p": ("int *", "(&gi@[%d & 3])", "*x"),
+    "s": ("char *", "(\"vwxyz\" + (%d & 3))", "x[0] + x[1] * 3"),
+    # default argument promotions: passed as a narrower type, read back as the promoted type
+    "c": ("int", "((signed char)(a + %d))", "x"),
+    "h": ("int", "((unsigned short)(b + %d))", "x"),
+    "f": ("double", "((float)(a + %d) * 0.25f)", "(long long)(x * 4)"),
+}
+VA_VECS = [[0, 0], [1, 2], [-7, 100], [65535, -40000], [127, 128]]
+
+
+def va_callee(name, seq, named="int n"):
+    reads = []
+    for i, k in enumerate(seq):
+        t, _, accx = VA_KINDS[k]
+        reads.append(" { %s x = __builtin_va_arg(ap, %s); r = r * 31 + (long long)(%s); }" % (t, t, accx))
+    last = named.split(",")[-1].split()[-1]
+    return "long long %s(%s, ...){ __builtin_va_list ap; long long r = n; VA_START(ap, %s);%s VA_END(ap); return r; }" % (name, named, last, "".join(reads))
+
+
+def va_args(seq):
+    return "".join(", " + VA_KINDS[k][1] % (i + 1) for i, k in enumerate(seq))
+
+
+VA_GLOBALS = "int gi@[4] = { 11, 22, 33, 44 }; "
+
+
+def variadics(maxlen_base=3, maxlen_promoted=2, runs=8):
+    """Fixed-sequence callees: every kind sequence of length 0..maxlen_base over {i,u,l,d,p,s}; every sequence of length 1..maxlen_promoted
+    over all nine kinds that contains a promoted kind {c,h,f}; homogeneous runs of length 4..runs of every base kind;
+    named-parameter prefixes; format-driven callee; va_copy; va_list handed to another function."""
+    base = "iuldps"
+    done = set()
+
+    def emit(seq, feat, named="int n", nargs="%d"):
+        seq = "".join(seq)
+        src = VA_PRE + VA_GLOBALS + va_callee("v@", seq, named) + " long long f@(int a, int b){ return v@(" + nargs % len(seq) + va_args(seq) + "); }"
+        return xcase(src, "long long", ["int", "int"], "VA", feat, vecs=VA_VECS)
+    for n in range(0, maxlen_base + 1):
+        for seq in itertools.product(base, repeat=n):
+            done.add(seq)
+            yield emit(seq, "fixed/%d/%s" % (n, "".join(seq) or "none"))
+    for n in range(1, maxlen_promoted + 1):
+        for seq in itertools.product(base + "chf", repeat=n):
+            if seq in done or not (set(seq) & set("chf")):
+                continue
+            yield emit(seq, "promoted/%d/%s" % (n, "".join(seq)))
+    for k in base:
+        for n in range(4, runs + 1):
+            yield emit(k * n, "run/%s/%d" % (k, n))
+    for seq in ["idid", "didi", "ilil", "lili", "idldps", "spdlui", "ididididid", "ddddddddd", "iiiiiiiii", "idps" * 3]:
+        yield emit(seq, "mixed/" + seq)
+    # named parameter prefixes (register/stack position of the first variable argument differs)
+    for named, nargs, tag in [("double q, int n", "0.5, %d", "double-first"), ("int n, double q", "%d, 1.5", "double-last-named"),
+                              ("long p1, long p2, long p3, long p4, long p5, int n", "1, 2, 3, 4, 5, %d", "six-named"),
+                              ("long p1, long p2, long p3, long p4, long p5, long p6, long p7, int n", "1, 2, 3, 4, 5, 6, 7, %d", "eight-named"),
+                              ("char *p, int n", "\"q\", %d", "pointer-first")]:
+        for seq in ["", "i", "d", "id", "di", "ldps", "iiiiiii", "ddddddddd"]:
+            # VA_START must name the last named parameter
+            src = VA_PRE + VA_GLOBALS + va_callee("v@", seq, named)
+            src += " long long f@(int a, int b){ return v@(" + nargs % len(seq) + va_args(seq) + "); }"
+            yield xcase(src, "long long", ["int", "int"], "VA", "named-prefix/%s/%s" % (tag, seq or "none"), vecs=VA_VECS)
+    FMT = (VA_PRE + VA_GLOBALS + "long long v@(const char *fmt, ...){ __builtin_va_list ap; long long r = 0; VA_START(ap, fmt); for (; *fmt; fmt++) { switch (*fmt) {"
+           " case 'i': r = r * 31 + __builtin_va_arg(ap, int); break; case 'u': r = r * 31 + __builtin_va_arg(ap, unsigned); break;"
+           " case 'l': r = r * 31 + __builtin_va_arg(ap, long); break; case 'd': r = r * 31 + (long long)(__builtin_va_arg(ap, double) * 2); break;"
+           " case 'p': r = r * 31 + *__builtin_va_arg(ap, int *); break; case 's': { char *x = __builtin_va_arg(ap, char *); r = r * 31 + x[0] + x[1] * 3; break; }"
+           " default: r = -1; } } VA_END(ap); return r; } ")
+    for seq in ["", "i", "d", "s", "id", "di", "ldps", "iiii", "dddd", "iuldps", "iiiiiiii", "dddddddd", "idididid", "spspspsp"]:
+        yield xcase(FMT + "long long f@(int a, int b){ return v@(\"%s\"%s); }" % (seq, va_args(seq)), "long long", ["int", "int"], "VA", "format-driven/%s" % (seq or "none"), vecs=VA_VECS)
+    yield xcase(FMT + "long long f@(int a, int b){ return v@(\"i\", a) * 3 + v@(\"dd\", 0.5, b * 1.5) + v@(\"\") + v@(\"s\", \"ab\"); }", "long long", ["int", "int"], "VA",
+                "format-driven/several-calls", vecs=VA_VECS)
+    COPY = (VA_PRE + "long long v@(int n, ...){ __builtin_va_list ap, aq; long long r = 0; int i; VA_START(ap, n); %s VA_END(ap); return r; } "
+            "long long f@(int a, int b){ return v@(3, %s); }")
+    yield xcase(COPY % ("__builtin_va_copy(aq, ap); for (i = 0; i < n; i++) r = r * 31 + __builtin_va_arg(ap, int); for (i = 0; i < n; i++) r = r * 37 + __builtin_va_arg(aq, int); VA_END(aq);",
+                        "a, b, a + b"), "long long", ["int", "int"], "VA", "va_copy/at-start", vecs=VA_VECS)
+    yield xcase(COPY % ("r = __builtin_va_arg(ap, int); __builtin_va_copy(aq, ap); r = r * 31 + __builtin_va_arg(ap, int); r = r * 31 + __builtin_va_arg(ap, int); "
+                        "r = r * 37 + __builtin_va_arg(aq, int); VA_END(aq);", "a, b, a + b"), "long long", ["int", "int"], "VA", "va_copy/mid-way", vecs=VA_VECS)
+    yield xcase(COPY % ("__builtin_va_copy(aq, ap); r = (long long)(__builtin_va_arg(ap, double) * 2); r = r * 31 + __builtin_va_arg(ap, long); "
+                        "r = r * 37 + (long long)(__builtin_va_arg(aq, double) * 4); VA_END(aq);", "a * 0.5, (long)b, 0"), "long long", ["int", "int"], "VA", "va_copy/double-long", vecs=VA_VECS)
+    yield xcase(VA_PRE + "static long long w@(int n, __builtin_va_list ap){ long long r = 0; while (n-- > 0) r = r * 31 + __builtin_va_arg(ap, int); return r; } "
+                "long long v@(int n, ...){ __builtin_va_list ap; long long r; VA_START(ap, n); r = w@(n, ap); VA_END(ap); return r; } "
+                "long long f@(int a, int b){ return v@(4, a, b, a - b, 9) + v@(0) + v@(1, b); }", "long long", ["int", "int"], "VA", "va_list-as-argument", vecs=VA_VECS)
+    yield xcase(VA_PRE + "long long v@(int n, ...){ __builtin_va_list ap; long long r = 0; VA_START(ap, n); while (n-- > 0) r += __builtin_va_arg(ap, int); VA_END(ap); "
+                "VA_START(ap, n); r = r * 100 + __builtin_va_arg(ap, int); VA_END(ap); return r; } long long f@(int a, int b){ return v@(2, a & 15, b & 15); }",
+                "long long", ["int", "int"], "VA", "va_start-twice", vecs=VA_VECS)
+    yield xcase(VA_PRE + "long long v@(int n, ...){ __builtin_va_list ap; long long r = 0; VA_START(ap, n); if (n > 0) { r = __builtin_va_arg(ap, int); r += v@(n - 1, (int)r + 1, 7); } VA_END(ap); return r; } "
+                "long long f@(int a, int b){ return v@(a & 3, b, 5); }", "long long", ["int", "int"], "VA", "recursive", vecs=VA_VECS)
+    yield xcase(VA_PRE + "struct P@ { int x; int y; }; long long v@(int n, ...){ __builtin_va_list ap; struct P@ p; long long r; VA_START(ap, n); p = __builtin_va_arg(ap, struct P@); "
+                "r = __builtin_va_arg(ap, int); VA_END(ap); return p.x * 3LL + p.y * 5 + r; } long long f@(int a, int b){ struct P@ p = { a, b }; return v@(1, p, 9); }",
+                "long long", ["int", "int"], "VA", "struct-argument", vecs=VA_VECS)
+    yield xcase(VA_PRE + "long long v@(int n, ...){ __builtin_va_list ap; long long r; VA_START(ap, n); r = __builtin_va_arg(ap, long long); r ^= (long long)__builtin_va_arg(ap, unsigned long); "
+                "r += __builtin_va_arg(ap, int); VA_END(ap); return r; } long long f@(int a, int b){ return v@(0, (long long)a << 33, (unsigned long)b * 3ul, 'c'); }",
+                "long long", ["int", "int"], "VA", "wide-and-char-constant", vecs=[[0, 0], [1, 2], [100, 7], [65535, 40000]])
+    yield xcase(VA_PRE + "typedef long long (*vf@)(int, ...); long long v@(int n, ...){ __builtin_va_list ap; long long r; VA_START(ap, n); r = __builtin_va_arg(ap, int) * 10LL + n; VA_END(ap); return r; } "
+                "long long f@(int a, int b){ vf@ p = v@; return p(a & 7, b) + (*p)(1, 2); }", "long long", ["int", "int"], "VA", "through-function-pointer", vecs=VA_VECS)
+
+
+# --- calls across the ABI boundary (path b of C04 compiles 'host' with gcc and the rest with ppci; everywhere else one unit) ---------------
+def xsplit(pre, ppci, host, ret, params, feat, vecs):
+    c = xcase(pre + "\n" + ppci + "\n" + host, ret, params, "XA", feat, vecs=vecs, split={"pre": pre, "ppci": ppci, "host": host})
+    return c
+
+
+SV_LAYOUTS = [
+    # name, members [(type, name)], size
+    ("c1", [("char", "c0")]), ("c2", [("char", "c0"), ("char", "c1")]), ("c3", [("char", "c[3]")]), ("s1c1", [("short", "h"), ("char", "c0")]),
+    ("i1", [("int", "i0")]), ("c4", [("char", "c[4]")]), ("i2", [("int", "i0"), ("int", "i1")]), ("l1", [("long", "l0")]), ("c8", [("char", "c[8]")]),
+    ("d1", [("double", "d0")]), ("f2", [("float", "f0"), ("float", "f1")]), ("i1f1", [("int", "i0"), ("float", "f0")]),
+    ("c9", [("char", "c[9]")]), ("i3", [("int", "i0"), ("int", "i1"), ("int", "i2")]), ("l1c1", [("long", "l0"), ("char", "c0")]),
+    ("l2", [("long", "l0"), ("long", "l1")]), ("d2", [("double", "d0"), ("double", "d1")]), ("d1l1", [("double", "d0"), ("long", "l0")]),
+    ("l1d1", [("long", "l0"), ("double", "d0")]), ("f4", [("float", "f0"), ("float", "f1"), ("float", "f2"), ("float", "f3")]), ("i1d1", [("int", "i0"), ("double", "d0")]),
+    ("c16", [("char", "c[16]")]), ("c17", [("char", "c[17]")]), ("l2c1", [("long", "l0"), ("long", "l1"), ("char", "c0")]),
+    ("l3", [("long", "l0"), ("long", "l1"), ("long", "l2")]), ("d3", [("double", "d0"), ("double", "d1"), ("double", "d2")]), ("c24", [("char", "c[24]")]),
+    ("l4", [("long", "l0"), ("long", "l1"), ("long", "l2"), ("long", "l3")]), ("d4", [("double", "d0"), ("double", "d1"), ("double", "d2"), ("double", "d3")]),
+    ("c32", [("char", "c[32]")]), ("i8", [("int", "v[8]")]),
+]
+
+
+def _sv_leaves(members):
+    out = []
+    for t, n in members:
+        if "[" in n:
+            base, cnt = n.split("[")
+            cnt = int(cnt[:-1])
+            for i in sorted({0, cnt // 2, cnt - 1}):
+                out.append((t, "%s[%d]" % (base, i)))
+        else:
+            out.append((t, n))
+    return out
+
+
+def _sv_defs(name, members):
+    """struct definition, fill statements for variable s from ints a, b, and hash expression statements."""
+    sdef = "struct S@ { %s };" % " ".join("%s %s;" % (t, n) for t, n in members)
+    lv = _sv_leaves(members)
+    zero = []
+    for t, n in members:
+        if "[" in n:
+            base, cnt = n.split("[")
+            zero.append(" { int i; for (i = 0; i < %d; i++) %%s.%s[i] = (%s)(i + 1); }" % (int(cnt[:-1]), base, t))
+    fill = "".join(zero) + "".join(" %%s.%s = (%s)(%s);" % (n, t, ["a", "b", "a + b", "a - b"][i % 4] if t not in ("float", "double") else ["a * 0.5", "b * 0.25", "a + 0.5", "b - 0.5"][i % 4])
+                                   for i, (t, n) in enumerate(lv))
+    hsh = "".join(" r = r * 31 + (long long)(%%s.%s%s);" % (n, " * 4" if t in ("float", "double") else "") for t, n in lv)
+    first = lv[0]
+    bump = " %%s.%s = (%s)(%%s.%s + 1);" % (first[1], first[0], first[1])
+    last = lv[-1]
+    bump2 = " %%s.%s = (%s)(%%s.%s + 2);" % (last[1], last[0], last[1])
+    return sdef, fill, hsh, bump, bump2
+
+
+SV_VECS = [[0, 0], [1, 2], [-7, 100], [100, -3], [127, 126]]
+
+
+def struct_values(layouts=None):
+    """Every layout x {assign, parameter, return, parameter+return chain, pointer copy, array element, member copy, recursion}."""
+    for name, members in (layouts or SV_LAYOUTS):
+        sdef, fill, hsh, bump, bump2 = _sv_defs(name, members)
+        F = lambda v: fill.replace("%s", v)
+        H = lambda v: hsh.replace("%s", v)
+        B = lambda v: bump.replace("%s", v)
+        B2 = lambda v: bump2.replace("%s", v)
+        ops = [
+            ("assign", sdef + " long long f@(int a, int b){ struct S@ s, t; long long r = 0;" + F("s") + " t = s;" + B("s") + H("s") + H("t") + " return r; }"),
+            ("initialise-from-object", sdef + " long long f@(int a, int b){ struct S@ s; long long r = 0;" + F("s") + " { struct S@ t = s;" + B2("t") + H("s") + H("t") + " } return r; }"),
+            ("parameter", sdef + " static long long cal@(struct S@ p, int k){ long long r = k;" + B("p") + H("p") + " return r; } long long f@(int a, int b){ struct S@ s; long long r;" + F("s")
+             + " r = cal@(s, 5);" + H("s") + " return r; }"),
+            ("parameter-after-six-ints", sdef + " static long long cal@(long p1, long p2, long p3, long p4, long p5, long p6, struct S@ p, int k){ long long r = k + p1 + p6;" + H("p")
+             + " return r; } long long f@(int a, int b){ struct S@ s;" + F("s") + " return cal@(1, 2, 3, 4, 5, 6, s, 7); }"),
+            ("two-parameters", sdef + " static long long cal@(struct S@ p, struct S@ q){ long long r = 0;" + H("q") + H("p") + " return r; } long long f@(int a, int b){ struct S@ s, t;" + F("s")
+             + " t = s;" + B2("t") + " return cal@(s, t); }"),
+            ("return", sdef + " static struct S@ mk@(int a, int b){ struct S@ s;" + F("s") + " return s; } long long f@(int a, int b){ long long r = 0; struct S@ s = mk@(a, b);" + H("s") + " return r; }"),
+            ("return-assign", sdef + " static struct S@ mk@(int a, int b){ struct S@ s;" + F("s") + " return s; } long long f@(int a, int b){ long long r = 0; struct S@ s; s = mk@(b, a); s = mk@(a, b);"
+             + H("s") + " return r; }"),
+            ("parameter-return-chain", sdef + " static struct S@ id@(struct S@ p){" + B("p") + " return p; } long long f@(int a, int b){ long long r = 0; struct S@ s, t;" + F("s") + " t = id@(id@(s));"
+             + H("s") + H("t") + " return r; }"),
+            ("return-member-direct", sdef + " static struct S@ mk@(int a, int b){ struct S@ s;" + F("s") + " return s; } long long f@(int a, int b){ return (long long)(mk@(a, b).%s%s); }"
+             % (_sv_leaves(members)[-1][1], " * 4" if _sv_leaves(members)[-1][0] in ("float", "double") else "")),
+            ("pointer-copy", sdef + " long long f@(int a, int b){ struct S@ s, t; struct S@ *p = &s, *q = &t; long long r = 0;" + F("s") + " *q = *p;" + B("s") + H("t") + H("s") + " return r; }"),
+            ("array-element", sdef + " struct S@ ga@[3]; long long f@(int a, int b){ struct S@ s; long long r = 0;" + F("s") + " ga@[1] = s;" + B("s") + " ga@[2] = ga@[1]; ga@[0] = s;" + H("ga@[0]")
+             + H("ga@[2]") + " return r; }"),
+            ("member-copy", sdef + " struct W@ { char k; struct S@ in; short z; }; long long f@(int a, int b){ struct W@ w, x; long long r = 0; w.k = 1; w.z = 2;" + F("w.in") + " x = w; x.in = w.in;"
+             + B("w.in") + H("x.in") + H("w.in") + " return r + x.k + x.z; }"),
+            ("recursion", sdef + " static struct S@ rec@(struct S@ p, int n){ if (n <= 0) return p;" + B("p") + " return rec@(p, n - 1); } long long f@(int a, int b){ long long r = 0; struct S@ s;"
+             + F("s") + " s = rec@(s, b & 3);" + H("s") + " return r; }"),
+            ("through-function-pointer", sdef + " static struct S@ id@(struct S@ p){" + B2("p") + " return p; } long long f@(int a, int b){ struct S@ (*fp)(struct S@) = id@; long long r = 0; struct S@ s;"
+             + F("s") + " s = fp(s);" + H("s") + " return r; }"),
+            ("conditional", sdef + " long long f@(int a, int b){ struct S@ s, t, u; long long r = 0;" + F("s") + " t = s;" + B2("t") + " u = a > b ? s : t;" + H("u") + " return r; }"),
+            ("comma-and-assignment-value", sdef + " long long f@(int a, int b){ struct S@ s, t, u; long long r = 0;" + F("s") + " u = (t = s);" + B("s") + " t = (a++, u);" + H("t") + H("u")
+             + " return r + a; }"),
+        ]
+        for op, src in ops:
+            yield xcase(src, "long long", ["int", "int"], "SV", "%s/%s" % (op, name), vecs=SV_VECS)
+
+
+def cross_abi():
+    """gcc caller -> ppci callee and ppci caller -> gcc callee for structures by value (every layout) and variadic functions."""
+    for name, members in SV_LAYOUTS:
+        sdef, fill, hsh, bump, bump2 = _sv_defs(name, members)
+        F = lambda v: fill.replace("%s", v)
+        H = lambda v: hsh.replace("%s", v)
+        B = lambda v: bump.replace("%s", v)
+        pre = sdef + " struct S@ cal@(struct S@ p, int k); long long drv@(int a, int b); long long f@(int a, int b);"
+        callee = "struct S@ cal@(struct S@ p, int k){" + B("p") + " if (k > 1) return cal@(p, k - 1); return p; }"
+        caller = "long long drv@(int a, int b){ long long r = 0; struct S@ s, t;" + F("s") + " t = cal@(s, 2);" + H("s") + H("t") + " return r; }"
+        yield xsplit(pre, callee + " long long f@(int a, int b){ return drv@(a, b); }", caller, "long long", ["int", "int"], "struct/gcc-calls-ppci/" + name, SV_VECS)
+        yield xsplit(pre, caller + " long long f@(int a, int b){ return drv@(a, b); }", callee, "long long", ["int", "int"], "struct/ppci-calls-gcc/" + name, SV_VECS)
+    for seq in ["", "i", "l", "d", "s", "id", "iii", "ldps", "iiiiiii", "ddddddddd"]:
+        pre = VA_PRE + "extern int gi@[4]; long long v@(int n, ...); long long drv@(int a, int b); long long f@(int a, int b);"
+        callee = va_callee("v@", seq)
+        caller = "long long drv@(int a, int b){ return v@(%d%s); }" % (len(seq), va_args(seq))
+        g = "int gi@[4] = { 11, 22, 33, 44 };"
+        yield xsplit(pre, g + " " + callee + " long long f@(int a, int b){ return drv@(a, b); }", caller, "long long", ["int", "int"], "variadic/gcc-calls-ppci/" + (seq or "none"), VA_VECS)
+        yield xsplit(pre, g + " " + caller + " long long f@(int a, int b){ return drv@(a, b); }", callee, "long long", ["int", "int"], "variadic/ppci-calls-gcc/" + (seq or "none"), VA_VECS)
+
+
+# --- sizeof / offsetof / _Alignof -------------------------------------------------------------------------------------------------
+SZ_STRUCTS = [
+    ("char-int-short", "struct S@ { char a; int b; short c; }", ["a", "b", "c"]),
+    ("char-long-char", "struct S@ { char a; long b; char c; }", ["a", "b", "c"]),
+    ("short-char-char-int", "struct S@ { short a; char b; char c; int d; }", ["a", "b", "c", "d"]),
+    ("char-double-float", "struct S@ { char a; double b; float c; }", ["a", "b", "c"]),
+    ("arrays", "struct S@ { char a[3]; short b[3]; char c; long d[2]; }", ["a", "b", "c", "d"]),
+    ("nested", "struct I@ { char x; long y; }; struct S@ { char a; struct I@ in; char b; struct I@ t[2]; short c; }", ["a", "in", "b", "t", "c"]),
+    ("pointers", "struct S@ { char a; void *p; char b; int (*fn)(int); }", ["a", "p", "b", "fn"]),
+    ("bit-fields-then-member", "struct S@ { unsigned x : 3; unsigned y : 7; char a; int z : 20; short b; }", ["a", "b"]),
+    ("union", "union S@ { char a; short b[3]; long c; char d[9]; }", ["a", "b", "c", "d"]),
+    ("union-in-struct", "union V@ { char c[5]; int i; }; struct S@ { char a; union V@ u; char b; }", ["a", "u", "b"]),
+]
+
+
+def sizes_offsets():
+    for name, sdef, members in SZ_STRUCTS:
+        ty = "union S@" if sdef.lstrip().startswith("union S@") else "struct S@"
+        yield xcase(sdef + "; long long f@(void){ %s o[2]; return (long long)sizeof(%s) * 10000 + (long long)sizeof(o) * 10 + (long long)sizeof o[1]; }" % (ty, ty), "long long", [], "SZ", "sizeof-type/" + name)
+        for m in members:
+            yield xcase(sdef + "; long long f@(void){ return __builtin_offsetof(%s, %s); }" % (ty, m), "long long", [], "SZ", "offsetof/expression/%s/%s" % (name, m))
+            yield xcase(sdef + "; long long f@(void){ %s o; return (long long)((char *)&o.%s - (char *)&o) * 100 + (long long)sizeof(o.%s); }" % (ty, m, m), "long long", [], "SZ",
+                        "member-address-and-size/%s/%s" % (name, m))
+        m = members[-1]
+        yield xcase(sdef + "; char t@[__builtin_offsetof(%s, %s) + 1]; long long f@(void){ return sizeof(t@); }" % (ty, m), "long long", [], "SZ", "offsetof/array-size/" + name)
+        yield xcase(sdef + "; long long g@ = __builtin_offsetof(%s, %s) * 3 + 1; long long f@(void){ return g@; }" % (ty, m), "long long", [], "SZ", "offsetof/static-initialiser/" + name)
+        yield xcase(sdef + "; enum E@ { K@ = __builtin_offsetof(%s, %s) }; long long f@(int a){ switch (a) { case __builtin_offsetof(%s, %s): return 100 + K@; default: return K@; } }" % (ty, m, ty, m),
+                    "long long", ["int"], "SZ", "offsetof/enum-and-case/" + name, vecs=[[0], [1], [2], [4], [8], [9], [10], [12], [16], [24], [32], [40], [48], [56]])
+        yield xcase(sdef + "; long long f@(void){ return _Alignof(%s); }" % ty, "long long", [], "SZ", "alignof/" + name)
+    yield xcase("struct I@ { char x; short y[3]; }; struct S@ { char a; struct I@ in; }; long long f@(void){ return __builtin_offsetof(struct S@, in.y) * 100 + __builtin_offsetof(struct S@, in.y[2]); }",
+                "long long", [], "SZ", "offsetof/member-path")
+    for t in INT_TYPES + ["float", "double", "void *", "char *", "int (*)(int)", "int[3]", "char[2][5]", "long *[4]"]:
+        yield xcase("long long f@(void){ return sizeof(%s); }" % t, "long long", [], "SZ", "sizeof-type/" + t)
+        yield xcase("long long f@(void){ return _Alignof(%s); }" % t, "long long", [], "SZ", "alignof/" + t)
+        yield xcase(_member_decl_case(t), "long long", [], "SZ", "implied-alignment/" + t)
+    # the type of an expression decides its size: usual arithmetic conversions, integer promotions, shifts, conditional, comparison, comma, assignment
+    for t1 in INT_TYPES + ["float", "double"]:
+        for t2 in INT_TYPES + ["float", "double"]:
+            fl = is_float(t1) or is_float(t2)
+            forms = [("+", "a + b"), ("?:", "1 ? a : b"), ("comma", "(a, b)"), ("=", "a = b"), ("<", "a < b")] + ([] if fl else [("<<", "a << b"), ("&", "a & b")])
+            body = " + ".join("%d * (long long)sizeof(%s)" % (100 ** i, e) for i, (_, e) in enumerate(forms))
+            yield xcase("long long f@(void){ %s a = 1; %s b = 1; (void)a; (void)b; return %s; }" % (t1, t2, body), "long long", [], "SZ", "sizeof-expression/binary/%s/%s" % (t1, t2))
+    for t in INT_TYPES + ["float", "double"]:
+        fl = is_float(t)
+        forms = ["-a", "+a", "!a", "a++", "(char)a", "*&a"] + ([] if fl else ["~a"])
+        body = " + ".join("%d * (long long)sizeof(%s)" % (10 ** i, e) for i, e in enumerate(forms))
+        yield xcase("long long f@(int k){ %s a = (%s)k; long long r = %s; return r * 10 + (long long)a; }" % (t, t, body), "long long", ["int"], "SZ", "sizeof-expression/unary-not-evaluated/" + t, vecs=[[1], [5]])
+    M = [
+        ("array-and-decay", "long long f@(void){ int t[7]; char m[3][5]; return sizeof t + 100 * sizeof(t + 0) + 10000 * sizeof m[0] + 1000000 * sizeof(*m) + 100000000LL * sizeof(&t); }"),
+        ("array-parameter-is-pointer", "static long long s@(int t[10]){ return sizeof t; } long long f@(void){ int t[10]; t[0] = 0; return s@(t) + 100 * sizeof t; }"),
+        ("element-count-idiom", "int t@[] = { 1, 2, 3, 4, 5 }; long long f@(void){ return sizeof t@ / sizeof t@[0] + 100 * (sizeof(t@) / sizeof(*t@)); }"),
+        ("function-call-not-evaluated", "int g@; static long h@(void){ g@++; return 1; } long long f@(void){ long long r = sizeof(h@()) + sizeof h@(); return r * 10 + g@; }"),
+        ("literals", "long long f@(void){ return sizeof 1 + 10 * sizeof 1L + 100 * sizeof 1u + 1000 * sizeof 1.0 + 10000 * sizeof 1.0f + 100000 * sizeof 'a' + 1000000 * sizeof 1LL + 10000000 * sizeof(char); }"),
+        ("literals-wide", "long long f@(void){ return sizeof 2147483647 + 10 * sizeof 2147483648 + 100 * sizeof 0x7fffffff + 1000 * sizeof 0x80000000 + 10000 * sizeof 0xffffffff + 100000 * sizeof 0x100000000 + 1000000 * sizeof 4294967295u; }"),
+        ("sizeof-sizeof", "long long f@(void){ return sizeof(sizeof(char)) + 10 * sizeof(sizeof 1 + 1) + 100 * (sizeof(int) - 5 > 0); }"),
+        ("struct-expression", "struct S@ { char a; long b; }; static struct S@ mk@(void){ struct S@ s; s.a = 1; s.b = 2; return s; } long long f@(void){ struct S@ s, *p = &s; s.a = 0; return sizeof s + 100 * sizeof *p + 10000 * sizeof p->b + 1000000 * sizeof mk@(); }"),
+        ("cast-binds-tighter", "long long f@(void){ int a = 3; return sizeof(char) + a + 10 * (sizeof (a) + 1) + 100 * sizeof((long)a) + 1000 * sizeof(int) * 2 + 10000 * sizeof a * 2; }"),
+        ("enum-and-enumerator", "enum E@ { A@, B@ = 100000 }; long long f@(void){ enum E@ e = A@; return sizeof e + 10 * sizeof(enum E@) + 100 * sizeof A@ + 1000 * sizeof B@; }"),
+        ("bit-field-promoted", "struct B@ { unsigned a : 3; long b : 40; } gb@; long long f@(void){ return sizeof(gb@.a + 0) + 10 * sizeof(+gb@.a) + 100 * sizeof(gb@.b + 0) + 1000 * (gb@.a - 1 < 0); }"),
+        ("pointer-difference-and-size-types", "long long f@(void){ int t[4]; return sizeof(&t[3] - &t[0]) + 10 * sizeof(sizeof t) + 100 * (int)(&t[3] - &t[0]) + 1000 * ((&t[0] - &t[3]) < 0); }"),
+        ("as-array-size-and-case", "char t@[sizeof(long) * 2 + sizeof(struct { char c; int i; })]; long long f@(int a){ switch (a) { case sizeof(int): return 1; case sizeof(long): return 2; } return sizeof t@; }"),
+    ]
+    for name, src in M:
+        yield xcase(src, "long long", ["int"] if "(int a)" in src else [], "SZ", "sizeof-misc/" + name, vecs=[[0], [4], [8]] if "(int a)" in src else None)
+
+
+def _member_decl_case(t):
+    if "(*)" in t:
+        d = t.replace("(*)", "(*v)")
+    elif "[" in t:
+        d = t.replace("[", " v[", 1) if "*[" not in t else t.replace("*[", "*v[")
+    else:
+        d = t + " v"
+    return "struct A@ { char c; %s; char e; }; long long f@(void){ return sizeof(struct A@) * 100 + __builtin_offsetof(struct A@, v); }" % d
+
+
+# --- statements ------------------------------------------------------------------------------------------------------------------------
+ST_CASES = [
+    ("empty-statements", "int f@(int a,int b){ ; ; if (a > 0) ; else ; for (;;) { ; break; } while (a++ < 3) ; { } ;; return a + b; }", 3),
+    ("empty-loop-bodies", "int f@(int a,int b){ int i, n = 0; for (i = 0; i < (a & 7); i++) ; n = i; while (n < (b & 7)) n++; do ; while (++n < 5); return n * 10 + i; }", 7),
+    ("for-all-parts-empty", "int f@(int a,int b){ int i = 0; for (;;) { if (i >= (a & 7)) break; i++; } for (; i < 20;) i += (b & 3) + 1; return i; }", 7),
+    ("for-comma", "int f@(int a,int b){ int i, j, s = 0; for (i = 0, j = (a & 7) + 3; i < j; i++, j--) s += i * j; return s * 100 + i * 10 + j + (b, a, 1); }", 7),
+    ("comma-values", "int g@; int f@(int a,int b){ int x = (g@ = a, g@ + 1); int y = (x++, b++, x + b); return x * 3 + y + (a, b) + ((void)0, 5); }", 7),
+    ("comma-in-conditions", "int f@(int a,int b){ int n = 0, i = 0; while (n++, i < (a & 3)) i++; if (n += 2, b & 1) n *= 3; return n * 10 + i; }", 7),
+    ("switch-case-range", "int f@(int a,int b){ switch (a) { case 1 ... 3: return 1; case 5 ... 5: return 2; case -4 ... -2: return 3; case 100 ... 2000: return 4; } return 0; }", 1),
+    ("switch-case-range-wide", "int f@(int a,int b){ switch (a) { case 1 ... 3: return 1; case 1000000 ... 2147483647: return 4; } return 0; }", 1),
+    ("switch-nested", "int f@(int a,int b){ int r = 0; switch (a & 3) { case 0: switch (b & 3) { case 0: r = 1; break; case 1: r = 2; default: r += 10; } r += 100; break; case 1: switch (b & 1) { case 1: r = 5; } "
+     "case 2: r += 1000; break; default: switch (b & 3) { default: r = 7; break; case 2: r = 8; } } return r; }", 7),
+    ("switch-default-in-the-middle", "int f@(int a,int b){ int r = 0; switch (a & 7) { case 0: r = 1; break; default: r = 2; case 3: r += 10; break; case 5: r = 3; } return r + b; }", 7),
+    ("switch-default-first", "int f@(int a,int b){ int r = 0; switch (a & 3) { default: r = 9; case 1: r += 1; break; case 2: r = 20; } return r + b; }", 7),
+    ("switch-fall-through-into-default", "int f@(int a,int b){ int r = 0; switch (a & 3) { case 0: r += 1; case 1: r += 10; default: r += 100; } return r + b; }", 7),
+    ("switch-only-default", "int f@(int a,int b){ int r = 0; switch (a) { default: r = b; } switch (b) { } switch (a) case 1: r += 5; return r; }", 7),
+    ("switch-negative-and-extreme-labels", "int f@(int a,int b){ switch (a) { case -1: return 1; case -2147483647 - 1: return 2; case 2147483647: return 3; case 0: return 4; case -7: return 5; } return b; }", 7),
+    ("switch-dense-table", "int f@(int a,int b){ switch (a & 15) { case 0: return 3; case 1: return 1; case 2: return 4; case 3: return 1; case 4: return 5; case 5: return 9; case 6: return 2; case 7: return 6; "
+     "case 8: return 5; case 9: return 3; case 10: return 5; case 11: return 8; case 12: return 9; case 13: return 7; } return b; }", 16),
+    ("switch-sparse", "int f@(int a,int b){ switch (a) { case 1: return 1; case 1000: return 2; case 100000: return 3; case -100000: return 4; case 2: return 5; case 127: return 6; case 128: return 7; } return b; }", 7),
+    ("switch-on-char", "int f@(int a,int b){ char c = (char)a; switch (c) { case 'a': return 1; case -1: return 2; case 127: return 3; case -128: return 4; case 0: return 5; } return b; }", 7),
+    ("switch-on-unsigned-char", "int f@(int a,int b){ unsigned char c = (unsigned char)a; switch (c) { case 255: return 1; case 1: return 2; case 128: return 3; case 0: return 4; } return b; }", 7),
+    ("switch-on-long", "int f@(int a,int b){ long v = (long)a * 4294967296L; switch (v) { case 0: return 1; case 1L << 32: return 2; case -(1L << 32): return 3; case 0x7fffffff00000000: return 4; } return b; }", 7),
+    ("switch-on-unsigned", "int f@(int a,int b){ unsigned v = (unsigned)a; switch (v) { case 0: return 1; case 4294967295u: return 2; case 2147483648u: return 3; case 1: return 4; } return b; }", 7),
+    ("switch-on-long-truncating-labels", "int f@(int a,int b){ switch ((long)a + 4294967296L) { case 4294967296L: return 1; case 4294967297L: return 2; case 0: return 3; case 1: return 4; } return b; }", 7),
+    ("switch-controlling-side-effect", "int g@; int f@(int a,int b){ int r; g@ = a & 3; switch (g@++) { case 0: r = 10; break; case 1: r = 20; break; default: r = 30; } return r + g@ + b; }", 7),
+    ("switch-declaration-inside", "int f@(int a,int b){ int r = 0; switch (a & 3) { int t; case 0: t = 5; r = t; break; case 1: { int u = b; r = u + 1; } break; default: t = 7; r = t * 2; } return r; }", 7),
+    ("switch-break-continue-in-loop", "int f@(int a,int b){ int i, r = 0; for (i = 0; i < 6; i++) { switch ((a + i) & 3) { case 0: continue; case 1: r += 1; break; case 2: r += 10; if (b & 1) break; r += 100; break; "
+     "default: goto out; } r += 1000; } out: return r + i; }", 7),
+    ("duffs-device", "int f@(int a,int b){ int n = (a & 15) + 1, r = 0, k = (n + 3) / 4; switch (n % 4) { case 0: do { r += 1; case 3: r += 10; case 2: r += 100; case 1: r += 1000; } while (--k > 0); } return r + b; }", 16),
+    ("case-inside-if", "int f@(int a,int b){ int r = 0; switch (a & 3) { case 0: if (b & 1) { case 1: r += 1; } else { case 2: r += 10; } break; default: r = 100; } return r; }", 7),
+    ("goto-into-block", "int f@(int a,int b){ int x = 0; if (a > 0) goto in; { x = 100; in: x += 2; } return x + b; }", 7),
+    ("goto-into-loop", "int f@(int a,int b){ int x = 0, n = 0; if (a & 1) goto mid; while (x < 6) { x += 1; mid: x += 2; n++; } return x * 10 + n + b; }", 7),
+    ("goto-out-of-nested-loops", "int f@(int a,int b){ int i, j, n = 0; for (i = 0; i < 4; i++) for (j = 0; j < 4; j++) { if (i * 4 + j == (a & 15)) goto done; n++; } done: return n * 100 + i * 10 + j + b; }", 16),
+    ("goto-into-else", "int f@(int a,int b){ int r = 0; if (a & 1) goto e; if (b & 1) { r = 1; } else { e: r += 10; } return r; }", 7),
+    ("goto-backward-and-forward", "int f@(int a,int b){ int n = a & 3, r = 0; top: if (n == 0) goto end; r += n; n--; goto top; end: return r + b; }", 7),
+    ("goto-skips-initialiser", "int f@(int a,int b){ int r = 1; if (a & 1) goto skip; { int t = 5; r += t; } skip: { int u = 7; r += u; } return r + b; }", 7),
+    ("goto-into-switch-body", "int f@(int a,int b){ int r = 0; if (b & 1) goto inside; switch (a & 3) { case 0: r = 1; break; case 1: inside: r += 10; break; default: r = 100; } return r; }", 7),
+    ("label-then-declaration", "int f@(int a,int b){ if (a > 0) goto l; b++; l: ; int x = a + b; return x; }", 7),
+    ("label-at-end-of-block", "int f@(int a,int b){ int r = 0; { if (a & 1) goto e; r = 5; e: ; } return r + b; }", 7),
+    ("labels-in-two-functions", "static int h@(int a){ if (a) goto l; return 1; l: return 2; } int f@(int a,int b){ if (b & 1) goto l; return h@(a & 1); l: return 10 + h@(a & 2); }", 7),
+    ("label-same-name-as-variable", "int f@(int a,int b){ int x = a; if (b & 1) goto x; x += 1; x: return x; }", 7),
+    ("do-while-zero-break-continue", "int f@(int a,int b){ int r = 0; do { if (a & 1) break; r += 1; if (b & 1) continue; r += 10; } while (0); return r; }", 7),
+    ("while-with-assignment-condition", "int f@(int a,int b){ int n = a & 7, r = 0, t; while ((t = n--) > 0) r += t; return r + b; }", 7),
+    ("nested-break-continue", "int f@(int a,int b){ int i, j, r = 0; for (i = 0; i < 4; i++) { if (i == (a & 3)) continue; for (j = 0; j < 4; j++) { if (j == (b & 3)) break; if ((i + j) & 1) continue; r += i * 4 + j; } r += 100; } return r; }", 7),
+    ("dangling-else", "int f@(int a,int b){ int r = 0; if (a > 0) if (b > 0) r = 1; else r = 2; if (a < 0) { if (b < 0) r += 10; } else r += 20; return r; }", 7),
+    ("else-if-chain", "int f@(int a,int b){ if (a < -1) return 1; else if (a == -1) return 2; else if (a == 0) return 3; else if (a < 3) return 4; else if (b) return 5; else return 6; }", 7),
+    ("return-in-void-function", "int g@; static void s@(int a){ if (a & 1) { g@ = 1; return; } g@ = 2; } int f@(int a,int b){ s@(a); return g@ + b; }", 7),
+    ("return-from-loop-in-switch", "int f@(int a,int b){ switch (a & 1) { case 0: for (;;) { if (b++ > 3) return b; } case 1: while (1) return 7; } return -1; }", 7),
+    ("conditional-void-operands", "int g@; static void s1@(void){ g@ += 1; } static void s2@(void){ g@ += 10; } int f@(int a,int b){ g@ = 0; a > 0 ? s1@() : s2@(); (void)(b > 0 ? s1@() : (void)0); return g@; }", 7),
+    ("conditional-pointer-operands", "int f@(int a,int b){ int x = 1, y = 2; int *p = a > 0 ? &x : &y; int *q = b > 0 ? p : 0; void *v = a > b ? (void *)&x : &y; *p += 10; return x * 100 + y * 10 + (q == 0) + (v == &x) * 1000; }", 7),
+    ("conditional-struct-operands", "struct P@ { int x; int y; }; int f@(int a,int b){ struct P@ p = { 1, 2 }, q = { 3, 4 }; struct P@ r = a > b ? p : q; return r.x * 10 + r.y + (a > 0 ? p : q).x * 100; }", 7),
+    ("conditional-nested-right-assoc", "int f@(int a,int b){ return a < 0 ? 1 : a == 0 ? 2 : b < 0 ? 3 : b == 0 ? 4 : 5; }", 7),
+    ("conditional-mixed-types", "long long f@(int a,int b){ long long r = sizeof(a ? 1 : 2L) * 1000 + sizeof(a ? (char)1 : (short)2) * 100; return r + (a ? -1 : 1u) / 2 + (b ? (signed char)-1 : (unsigned char)255); }", 7),
+    ("conditional-side-effects-once", "int g@; static int t@(int v){ g@ = g@ * 10 + v; return v; } int f@(int a,int b){ g@ = 0; int r = t@(a & 1) ? t@(2) : t@(3); r += (b & 1 ? t@(4) : t@(5)) ? t@(6) : t@(7); return r * 100000 + g@; }", 7),
+    ("conditional-as-lvalue-through-pointer", "int f@(int a,int b){ int x = 1, y = 2; *(a > 0 ? &x : &y) = b; return x * 1000 + y; }", 7),
+    ("logical-chains", "int g@; static int t@(int v){ g@ = g@ * 2 + 1; return v; } int f@(int a,int b){ g@ = 0; int r = (t@(a) && t@(b) || t@(a - 1) && !t@(b - 1)) + 2 * (t@(a > 0) || t@(b > 0) && t@(0)); return r * 1000 + g@; }", 7),
+    ("block-scope-shadowing", "int x@ = 5; int f@(int a,int b){ int r = x@; { int x@ = a; r += x@; { int x@ = b; r += x@ * 2; } r += x@; } for (int a = 0; a < 2; a++) r += a; return r + a; }", 7),
+    ("declaration-after-statement", "int f@(int a,int b){ a += 1; int x = a * 2; b -= 1; int y = x + b, z = y + 1; return x + y * 3 + z * 5; }", 7),
+    ("loop-variable-scope", "int f@(int a,int b){ int i = 100, s = 0; for (int i = 0; i < (a & 3); i++) s += i; for (int i = 5; i > (b & 3); i--) s += i * 10; return s + i; }", 7),
+    ("expression-statements", "int g@; int f@(int a,int b){ a; a + b; (void)a; g@ = a, g@ += b; -g@; !g@; g@++; return g@; }", 7),
+    ("deep-nesting", "int f@(int a,int b){ int r = 0, i; for (i = 0; i < 3; i++) { if (a & (1 << i)) { switch (b & 3) { case 0: while (r < 5) { r += 2; if (r == 4) break; } break; case 1: do { r++; } while (r < i); break; "
+     "default: r += i; } } else { r -= 1; } } return r; }", 7),
+]
+
+
+def statements():
+    for name, src, k in ST_CASES:
+        ret = src.split(" f@(")[0].split()[-1] if not src.split(" f@(")[0].endswith("long long") else "long long"
+        if k == 16:
+            vecs = [[i, j] for i in range(16) for j in (0, 1, 5)]
+        elif k == 1:
+            vecs = [[v, 0] for v in [-2147483647 - 1, -5, -4, -3, -2, -1, 0, 1, 2, 3, 4, 5, 6, 99, 100, 101, 2000, 2001, 999999, 1000000, 2147483647]]
+        elif k == 3:
+            vecs = [[0, 0], [1, 2], [-1, 7], [101, 3]]
+        else:
+            vecs = [[x, y] for x in [0, 1, -1, 2, 3, -2147483647 - 1, 2147483647, 5, -7, 4] for y in [0, 1, -1, 2, 3, 5]]
+        c = xcase(src, ret, ["int", "int"], "ST", name, globals_=["g@"] if "int g@;" in src else [], vecs=vecs)
+        if name.startswith("switch-case-range"):
+            c["strict"] = False  # a GNU extension: -pedantic-errors rejects it, the plain -std=gnu11 oracle accepts it
+        yield c
+
+
+# --- pointers and function pointers ---------------------------------------------------------------------------------------------------
+def pointers():
+    for t in ["char", "short", "int", "long", "double", "struct T@", "int *", "char[3]"]:
+        decl = "struct T@ { int x; char y; long z; }; " if t.startswith("struct") else ""
+        decl += "typedef %s E@; " % t if "[" not in t else "typedef char E@[3]; "
+        arr = "E@ t[8]"
+        ptr = "E@ *p, *q"
+        yield xcase(decl + "long long f@(int a,int b){ %s; %s; p = t + (a & 7); q = &t[b & 7]; return (p - q) * 1000 + (p < q) + 2 * (p <= q) + 4 * (p == q) + 8 * (p != q) + 16 * (p > q) + 32 * (p >= q) "
+                    "+ 100 * ((char *)p - (char *)t); }" % (arr, ptr), "long long", ["int", "int"], "PT", "compare-subtract/" + t, k=7, cap=49)
+        yield xcase(decl + "long long f@(int a,int b){ %s; %s; p = t; q = t + 7; p += a & 3; q -= b & 3; p++; --q; ++p; q--; return (q - p) * 100 + (p - t) * 10 + (t + 8 - q) + ((p + 1) - 1 == p) * 1000 + (&p[2] - &q[-1]) * 10000; }"
+                    % (arr, ptr), "long long", ["int", "int"], "PT", "increment-step/" + t, k=7, cap=49)
+    M = [
+        ("pointer-to-pointer", "long long f@(int a,int b){ int x = a, y = b; int *p = &x, *q = &y; int **pp = &p; **pp += 1; pp = &q; **pp += 2; *pp = &x; **pp += 4; int ***ppp = &pp; ***ppp += 8; return x * 1000LL + y; }"),
+        ("pointer-array", "long long f@(int a,int b){ int v[3] = { 1, 2, 3 }; int *t[3] = { &v[2], &v[0], &v[1] }; int **p = t; *t[a & 1] += 10; **(p + 2) += 100; p[b & 1][0] += 1000; return v[0] + v[1] * 3LL + v[2] * 7; }"),
+        ("pointer-to-array", "long long f@(int a,int b){ int m[3][4]; int i, j; for (i = 0; i < 3; i++) for (j = 0; j < 4; j++) m[i][j] = i * 4 + j; int (*r)[4] = m + (a & 1); int *e = &m[1][2]; "
+         "return (*r)[b & 3] + r[1][1] * 100 + *(*(m + 2) + (b & 3)) * 10000 + (e - &m[0][0]) * 1000000LL + (&m[2] - &m[0]) * 100000000LL; }"),
+        ("array-of-arrays-3d", "int g@[2][3][4]; long long f@(int a,int b){ int i = a & 1, j = (b & 3) % 3, k = (a >> 1) & 3; g@[i][j][k] = 7; g@[1][2][3] += 1; return (&g@[i][j][k] - &g@[0][0][0]) * 100 + (long long)sizeof g@[0] + (long long)sizeof g@[0][0] * 10000 + g@[1][2][3] * 1000000LL; }"),
+        ("negative-index-and-commuted-index", "long long f@(int a,int b){ int t[5] = { 1, 2, 3, 4, 5 }; int *p = t + 4; return p[-(a & 3)] + (b & 3)[t] * 10 + (-1)[p] * 100 + *(t + (a & 3)) * 1000; }"),
+        ("void-pointer-round-trip", "long long f@(int a,int b){ long x = a; void *v = &x; long *p = v; char *c = (char *)v; *p += b; return x + (c == (char *)p) * 1000000007LL + ((void *)p == v); }"),
+        ("null-pointer-tests", "long long f@(int a,int b){ int x = 1; int *p = a > 0 ? &x : 0; int *q = 0; return (p == 0) + 2 * (!p) + 4 * (p != 0) + 8 * (p && *p) + 16 * (q == (void *)0) + 32 * (p ? 1 : 0) + 64 * (0 == q); }"),
+        ("pointer-integer-conversion", "long long f@(int a,int b){ int t[4]; unsigned long u = (unsigned long)&t[a & 3]; unsigned long v = (unsigned long)&t[0]; int *p = (int *)(v + 4 * (b & 3)); return (u - v) * 10 + (p - t); }"),
+        ("pointer-into-struct", "struct T@ { char c; int v[3]; short h; }; long long f@(int a,int b){ struct T@ s = { 1, { 2, 3, 4 }, 5 }; int *p = s.v + (a & 1); short *h = &s.h; struct T@ *q = &s; *p += 10; *h += (short)b; "
+         "q->v[2] = p[1] + 100; return s.v[0] + s.v[1] * 10LL + s.v[2] * 100 + s.h * 100000LL + (&q->v[1] - q->v) + ((char *)&q->h - (char *)q) * 10000000LL; }"),
+        ("struct-pointer-arithmetic", "struct T@ { char c; long v; }; struct T@ gt@[4]; long long f@(int a,int b){ struct T@ *p = gt@, *e = gt@ + 4; long long n = 0; for (; p != e; p++) { p->c = (char)(a + n); p->v = b * n; n++; } "
+         "p = &gt@[a & 3]; return (p - gt@) * 1000 + p->v + (p + 1 - 1)->c + (e - p) * 100000; }"),
+        ("char-pointer-walk", "long long f@(int a,int b){ char s[8] = \"abcdefg\"; char *p = s; long long r = 0; while (*p) { if (p - s == (a & 7)) *p = 'X'; r = r * 3 + *p++; } return r + (p - s) + b; }"),
+        ("const-pointer-forms", "long long f@(int a,int b){ int x = a, y = b; const int *p = &x; int *const q = &y; const int *const r = &x; p = &y; *q += 1; return *p * 3LL + *q + *r; }"),
+        ("swap-through-pointers", "static void sw@(int *p, int *q){ int t = *p; *p = *q; *q = t; } long long f@(int a,int b){ int x = a, y = b; sw@(&x, &y); sw@(&x, &x); return x * 100003LL + y; }"),
+        ("out-parameters", "static int dm@(int n, int d, int *q, int *r){ if (d == 0) return 0; *q = n / d; *r = n % d; return 1; } long long f@(int a,int b){ int q = -1, r = -1; int ok = dm@(a & 1023, b & 15, &q, &r); return ok * 1000000LL + q * 1000 + r; }"),
+        ("function-pointer/array", "static int inc@(int x){ return x + 1; } static int dbl@(int x){ return x * 2; } static int neg@(int x){ return -x; } long long f@(int a,int b){ int (*t[3])(int) = { inc@, dbl@, neg@ }; "
+         "return t[(a & 3) % 3](b & 255) + t[0](t[1](t[2](3))) * 1000LL; }"),
+        ("function-pointer/static-array", "static int inc@(int x){ return x + 1; } static int dbl@(int x){ return x * 2; } static int (*const tab@[])(int) = { inc@, dbl@, inc@ }; long long f@(int a,int b){ "
+         "return tab@[(a & 3) % 3](b & 255) + (long long)(sizeof tab@ / sizeof tab@[0]) * 1000; }"),
+        ("function-pointer/parameter", "static int inc@(int x){ return x + 1; } static int dbl@(int x){ return x * 2; } static int ap@(int (*g)(int), int v){ return g(v) + (*g)(v) + (**g)(1); } static int ap2@(int g(int), int v){ return g(v); } "
+         "long long f@(int a,int b){ return ap@(a & 1 ? inc@ : dbl@, b & 255) * 1000LL + ap2@(&inc@, 5) + ap2@(*dbl@, 7) * 10; }"),
+        ("function-pointer/returned", "static int inc@(int x){ return x + 1; } static int dbl@(int x){ return x * 2; } static int (*pick@(int k))(int){ return k ? inc@ : dbl@; } long long f@(int a,int b){ return pick@(a & 1)(b & 255) + pick@(0)(pick@(1)(1)) * 1000; }"),
+        ("function-pointer/typedef", "typedef int fn@(int); typedef fn@ *pfn@; static int inc@(int x){ return x + 1; } static fn@ dbl@; static int dbl@(int x){ return x * 2; } long long f@(int a,int b){ pfn@ p = a & 1 ? inc@ : dbl@; pfn@ *pp = &p; return (*pp)(b & 255); }"),
+        ("function-pointer/in-struct", "struct O@ { int k; int (*op)(int, int); }; static int add@(int x, int y){ return x + y; } static int sub@(int x, int y){ return x - y; } static struct O@ ops@[2] = { { 1, add@ }, { 2, sub@ } }; "
+         "long long f@(int a,int b){ struct O@ *o = &ops@[a & 1]; return o->op(b & 255, o->k) * 10 + ops@[1].op(9, 4); }"),
+        ("function-pointer/compare", "static int inc@(int x){ return x + 1; } static int dbl@(int x){ return x * 2; } long long f@(int a,int b){ int (*p)(int) = a & 1 ? inc@ : dbl@; int (*q)(int) = b & 1 ? inc@ : 0; return (p == inc@) + 2 * (p != dbl@) + 4 * (q == 0) + 8 * (!q) + 16 * (p == q) + 32 * (q ? q(1) : 7); }"),
+        ("function-pointer/callback-with-state", "static void each@(int *v, int n, void (*cb)(int *, void *), void *st){ int i; for (i = 0; i < n; i++) cb(&v[i], st); } static void acc@(int *e, void *st){ *(long long *)st += *e; *e = 0; } "
+         "long long f@(int a,int b){ int v[3] = { a & 255, b & 255, 7 }; long long s = 0; each@(v, 3, acc@, &s); return s * 10 + v[0] + v[1] + v[2]; }"),
+        ("function-pointer/void-and-two-arg", "int g@; static void set@(void){ g@ = 5; } static long mul@(long x, char y){ return x * y; } long long f@(int a,int b){ void (*s)(void) = set@; long (*m)(long, char) = mul@; g@ = 0; s(); (*s)(); return m(a & 1023, (char)(b & 63)) + g@; }"),
+        ("recursion/mutual", "static int od@(int n); static int ev@(int n){ return n == 0 ? 1 : od@(n - 1); } static int od@(int n){ return n == 0 ? 0 : ev@(n - 1); } long long f@(int a,int b){ return ev@(a & 15) * 10 + od@(b & 15); }"),
+        ("recursion/pointer-accumulator", "static void walk@(int n, int *acc){ if (n <= 0) return; *acc += n; walk@(n - 1, acc); *acc *= 2; } long long f@(int a,int b){ int s = b & 3; walk@(a & 7, &s); return s; }"),
+        ("recursion/array-on-stack", "static int dep@(int n){ int t[4]; int i; for (i = 0; i < 4; i++) t[i] = n + i; if (n > 0) t[1] += dep@(n - 1); return t[0] + t[1] + t[3]; } long long f@(int a,int b){ return dep@(a & 7) + b; }"),
+    ]
+    for name, src in M:
+        yield xcase(src, "long long", ["int", "int"], "PT", name, globals_=["g@"] if "int g@[" in src or "int g@;" in src else [], k=7, cap=49)
+
+
+# --- declarations, qualifiers, storage classes, prototypes -------------------------------------------------------------------------------
+def declarations():
+    M = [
+        ("typedef/chain", "typedef int T1@; typedef T1@ T2@; typedef T2@ *P2@; typedef P2@ A2@[2]; long long f@(int a,int b){ T2@ x = a, y = b; A2@ t = { &x, &y }; P2@ p = t[1]; *p += 1; return *t[0] * 1000LL + *t[1] + (long long)sizeof(A2@) * 1000000000LL; }"),
+        ("typedef/struct-and-self-pointer", "typedef struct N@ N@; struct N@ { int v; N@ *next; }; long long f@(int a,int b){ N@ n2 = { b, 0 }, n1 = { a, &n2 }; N@ *p; long long s = 0; for (p = &n1; p; p = p->next) s = s * 1000 + p->v; return s; }"),
+        ("typedef/array-and-function", "typedef int V3@[3]; typedef long F@(int, int); static F@ add@; static long add@(int x, int y){ return (long)x + y; } long long f@(int a,int b){ V3@ v = { a, b }; V3@ m[2] = { { 1 }, { 2, 3 } }; F@ *p = add@; return p(v[0], v[1]) + v[2] + m[1][1] * 7 + (long long)sizeof m; }"),
+        ("typedef/unsigned-and-qualified", "typedef unsigned char U8@; typedef const U8@ CU8@; typedef volatile long VL@; long long f@(int a,int b){ U8@ x = (U8@)a; CU8@ y = (U8@)b; VL@ z = x + y; return z * 1000 + (x >> 1) + (U8@)(x + y); }"),
+        ("typedef/shadowed-by-variable", "typedef int T@; long long f@(int a,int b){ T@ x = a; { long T@ = b; x += (int)(T@ & 15); } return x; }"),
+        ("enum/values-and-arithmetic", "enum E@ { A@ = -1, B@, C@ = B@ + 5, D@, Z@ = 1 << 20, Y@ = 'a' }; long long f@(int a,int b){ enum E@ e = a & 1 ? C@ : D@; e = e + 1; int t[D@ + 1]; t[D@] = b; "
+         "return e * 1000000LL + A@ + B@ * 10 + C@ * 100 + D@ * 1000 + t[6] + (Z@ >> 18) + Y@ * 7 + (long long)sizeof(enum E@) * 100000; }"),
+        ("enum/switch-and-compare", "enum K@ { R@, G@, BL@ }; static enum K@ nx@(enum K@ k){ return k == BL@ ? R@ : (enum K@)(k + 1); } long long f@(int a,int b){ enum K@ k = (enum K@)((a & 3) % 3); int n = b & 3; while (n-- > 0) k = nx@(k); "
+         "switch (k) { case R@: return 1; case G@: return 2; case BL@: return 3; } return 0; }"),
+        ("enum/anonymous-and-typedef", "enum { N0@ = 4, N1@ }; typedef enum { T0@, T1@ = N1@ * 2 } TE@; long long f@(int a,int b){ TE@ e = a & 1 ? T1@ : T0@; int t[N1@]; t[N0@] = b; return (int)e * 100 + t[4] + N0@ + N1@; }"),
+        ("enum/unsigned-range", "enum W@ { W0@, WM@ = 4294967295u }; long long f@(int a,int b){ enum W@ w = WM@; return (w > 0) + 2 * (long long)sizeof(enum W@) + 100 * (WM@ > 0) + (a & b & 0); }"),
+        ("enum/negative-comparison", "enum S@ { SN@ = -5, SP@ = 5 }; long long f@(int a,int b){ enum S@ s = a & 1 ? SN@ : SP@; return (s < 0) + 2 * (s < b) + 4 * (SN@ < 0u) + 8 * ((int)s / 2); }"),
+        ("const/objects-and-parameters", "const int k@ = 5; static const long tab@[3] = { 10, 20, 30 }; static int h@(const int x, const int *p){ return x + *p; } long long f@(int a,int b){ const int c = a; const int d = h@(c, &k@); "
+         "return c + k@ + d * 100LL + tab@[b & 1] + tab@[2]; }"),
+        ("const/struct-and-members", "struct C@ { const int id; int v; }; static const struct C@ kc@ = { 7, 8 }; long long f@(int a,int b){ struct C@ s = { a, b }; const struct C@ *p = &s; s.v += kc@.id; return p->id * 1000LL + p->v + kc@.v; }"),
+        ("volatile/every-access-performed", "volatile int v@; long long f@(int a,int b){ volatile int w = b; int n = 0; v@ = a; v@ = v@ + 1; v@; w; n = v@ + w; v@++; w += 2; return n * 1000LL + v@ + w; }"),
+        ("volatile/loop-counter-and-pointer", "volatile int flag@; long long f@(int a,int b){ volatile int *p = &flag@; int n = 0; *p = a & 7; while (*p) { (*p)--; n++; } volatile long long acc = b; acc += n; return acc; }"),
+        ("static/function-and-forward-declaration", "static int h@(int); static int k@(int x); long long f@(int a,int b){ return h@(a) + k@(b) * 3LL; } static int h@(int x){ return x / 2; } static int k@(int x){ return h@(x) + 1; }"),
+        ("static/local-persists", "static int cnt@(void){ static int n; static int m = 10; n++; m += n; return m; } long long f@(int a,int b){ int r = cnt@(); r = r * 100 + cnt@(); return r + (a & b & 0); }"),
+        ("static/local-initialised-aggregates", "long long f@(int a,int b){ static int t[4] = { 1, 2, [3] = 4 }; static struct { char c; long v; } s = { 'x', 99 }; static const char *names[] = { \"p\", \"qr\" }; static char buf[] = \"hey\"; "
+         "return t[a & 3] + s.c + s.v + names[b & 1][0] + buf[a & 3] + (long long)sizeof buf; }"),
+        ("static/two-locals-same-name", "static int one@(void){ static int n = 5; return n++; } static int two@(void){ static int n = 50; return n++; } long long f@(int a,int b){ int r = one@() + two@(); r += one@() * 1000; return r + (a & b & 0); }"),
+        ("static/file-scope-and-tentative", "static int s@; int t@; int t@; static int s@ = 4; int t@ = 6; extern int t@; long long f@(int a,int b){ extern int t@; return s@ * 10 + t@ + a + b; }"),
+        ("extern/declared-in-block", "int gx@ = 42; static int h@(void){ return gx@ + 1; } long long f@(int a,int b){ extern int gx@; int h2(void); return gx@ + h@() + a + b; }".replace("int h2(void); ", "")),
+        ("prototype/void-parameter-list", "int g@; void bump@(void); int get@(void); long long f@(int a,int b){ g@ = a; bump@(); bump@(); return get@() + b; } void bump@(void){ g@ += 3; } int get@(void){ return g@; }"),
+        ("prototype/unnamed-parameters", "static long mix@(int, long, char); long long f@(int a,int b){ return mix@(a, b, (char)a); } static long mix@(int x, long y, char z){ return x * 3L + y * 5 + z; }"),
+        ("prototype/repeated-compatible", "int h@(int x); int h@(int); extern int h@(int y); long long f@(int a,int b){ return h@(a) + b; } int h@(int q){ return q ^ 5; }"),
+        ("prototype/array-and-function-parameters-adjusted", "static int s@(int t[], int n, int g(int)){ return g(t[n]); } static int inc@(int x){ return x + 1; } long long f@(int a,int b){ int t[4] = { a, b, 3, 4 }; return s@(t, a & 3, inc@); }"),
+        ("prototype/argument-conversion", "static long long w@(long long x, unsigned char c, short h, double d){ return x + c * 1000LL + h * 1000000LL + (long long)(d * 2) * 1000000000LL; } long long f@(int a,int b){ return w@(a, b, a, b); }"),
+        ("prototype/return-conversion", "static unsigned char uc@(int x){ return x; } static short sh@(long x){ return x; } static double db@(int x){ return x; } static int in@(double x){ return x; } long long f@(int a,int b){ return uc@(a) + sh@(b) * 1000LL + (long long)db@(a & 255) + in@(2.75) * 7; }"),
+        ("prototype/many-parameters", "static long long m@(int p1, long p2, char p3, short p4, int p5, long p6, int p7, long p8, char p9, int p10){ return p1 + 2 * p2 + 3 * p3 + 4 * p4 + 5 * p5 + 6 * p6 + 7 * p7 + 8 * p8 + 9 * p9 + 10LL * p10; } "
+         "long long f@(int a,int b){ return m@(a, b, (char)a, (short)b, a + 1, b + 1, a + 2, b + 2, (char)(a + 3), b + 3); }"),
+        ("prototype/many-doubles", "static double m@(double p1, double p2, double p3, double p4, double p5, double p6, double p7, double p8, double p9, double p10, int k){ return p1 + 2 * p2 + 3 * p3 + 4 * p4 + 5 * p5 + 6 * p6 + 7 * p7 + 8 * p8 + 9 * p9 + 10 * p10 + k; } "
+         "long long f@(int a,int b){ double x = a & 1023, y = b & 1023; return (long long)(m@(x, y, x + 1, y + 1, x + 2, y + 2, x + 3, y + 3, x + 4, y + 4, 5) * 2); }"),
+        ("prototype/mixed-int-double-interleaved", "static double m@(int i1, double d1, long i2, float d2, char i3, double d3, int i4, double d4, int i5, int i6, int i7, double d5){ return i1 + 2 * d1 + 3 * i2 + 4 * d2 + 5 * i3 + 6 * d3 + 7 * i4 + 8 * d4 + 9 * i5 + 10 * i6 + 11 * i7 + 12 * d5; } "
+         "long long f@(int a,int b){ int x = a & 63, y = b & 63; return (long long)(m@(x, y * 0.5, x + 1, y * 0.25f, (char)x, y + 0.5, x + 2, y, x + 3, y + 1, x + 4, 1.5) * 4); }"),
+        ("specifier-orders", "long long f@(int a,int b){ unsigned u = a; long int li = b; short int si = (short)a; signed s = b; long unsigned int lu = u; int long unsigned ilu = lu + 1; unsigned long long ull = ilu; signed char sc = (signed char)a; "
+         "short unsigned su = (unsigned short)b; long long int lli = li; const volatile int cvi = 3; return u + li * 3 + si * 5 + s * 7 + (long long)(lu & 0xffff) + (long long)(ull & 0xff) + sc + su + lli + cvi; }"),
+        ("plain-char-signedness", "long long f@(int a,int b){ char c = (char)a; signed char s = (signed char)a; unsigned char u = (unsigned char)a; return (c < 0) + 2 * (c == s) + 4 * (c == u) + 8 * (c >> 1) + 100000 * (long long)(c + s + u) + (b & 0); }"),
+        ("multiple-declarators", "long long f@(int a,int b){ int x = a, *p = &x, t[2] = { b, 2 }, **pp = &p, (*fn)(int) = 0, n = sizeof t / sizeof *t; **pp += t[0]; return x * 10LL + n + (fn == 0); }"),
+        ("register-auto-inline", "static inline int sq@(int x){ return x * x; } long long f@(int a,int b){ register int r = a & 255; auto int s = b & 255; return sq@(r) + sq@(s) * 100000LL; }"),
+        ("static-assert-and-constant-expressions", "_Static_assert(sizeof(int) == 4, \"int\"); enum { N@ = (3 + 4) * 2 - 1, M@ = N@ > 10 ? 1 << 3 : 2, Q@ = sizeof(long) / 2, R@ = !0 + ~0 + -(-2) }; int t@[N@ % 5 + M@]; "
+         "long long f@(int a,int b){ _Static_assert(N@ == 13, \"n\"); return N@ + M@ * 100 + Q@ * 10000 + R@ * 100000 + (long long)sizeof t@ * 1000000 + (a & b & 0); }"),
+        ("initialiser-constant-expressions", "static int i1@ = 7 / 2 - 7 % 4; static int i2@ = (1 << 4 | 3) & ~1 ^ 0x55; static long i3@ = -1 < 0u ? 10 : 20; static unsigned i4@ = -1; static long long i5@ = 1LL << 40; static int i6@ = (char)300 + (unsigned char)-1; "
+         "static int i7@ = 3 > 2 && 0 || 5; static double i8@ = 1 / 2 + 1.0 / 2; static int i9@ = (int)2.9 + (int)-2.9; long long f@(int a,int b){ return i1@ + i2@ * 10 + i3@ * 1000 + (long long)i4@ * 3 + i5@ + i6@ * 7 + i7@ * 11 + (long long)(i8@ * 4) * 13 + i9@ + (a & b & 0); }"),
+        ("integer-constant-forms", "long long f@(int a,int b){ return 0x1F + 017 + 0 + 10u + 10l + 10ul + 10lu + 10LL + 10uLL + 0xFFFFFFFFu / 65536 + 0777 + 1e2 + .5e1 + 0x10L + (a & b & 0); }"),
+        ("float-constant-forms", "long long f@(int a,int b){ double d = 1.5 + 2. + .25 + 1e1 + 1.5e-1 + 0x1p3 + 0x.8p1; float g = 1.5f + 2.F; long double l = 1.0L; return (long long)(d * 1000) + (long long)(g * 10) + (long long)l + (a & b & 0); }"),
+        ("old-style-tentative-arrays", "int t@[]; int t@[3]; extern int u@[]; int u@[2] = { 8, 9 }; long long f@(int a,int b){ t@[2] = a; return t@[2] + u@[b & 1] + (long long)sizeof t@; }"),
+    ]
+    for name, src in M:
+        c = xcase(src, "long long", ["int", "int"], "DQ", name, k=7, cap=25)
+        if name in ("static/local-persists", "static/two-locals-same-name"):
+            c["vectors"] = [[0, 1]]  # objects that keep their value between calls: one call per process / interpreter instance
+        yield c
+
+
+X_FAMILIES = ["GI", "LI", "CH", "CL", "VA", "SZ", "ST", "SV", "PT", "DQ", "XA"]
+
+
+def extended(storages=None, maxlen=None, shapes=None):
+    """All extended families (except the cross-ABI family, see cross_abi) at the default bounds."""
+    for st in (storages or STORAGES):
+        for c in init_family(st, maxlen, shapes):
+            yield c
+    for g in (chars_strings, compound_literals, variadics, sizes_offsets, statements, struct_values, pointers, declarations):
+        for c in g():
+            yield c
